@@ -210,20 +210,21 @@ func dspSigKinds(sig *types.Signature, who string) (params, results []string, va
 	return params, results, sig.Variadic(), nil
 }
 
+// ---------------------------------------------------------------- resolution helpers
+//
+// Everything below identifies things by what they ARE (go/types objects and
+// types), not by what they are called: locals, receivers, unexported fields,
+// helper functions and types may be renamed, statements that do not depend on
+// each other may be reordered, a literal may be replaced by an equal constant,
+// `if err != nil {…}` may be inverted or carry an else.  Only exported API
+// names are used as names (Session, Message, Handler, CSession, SSession,
+// ServeConn, the Message*/Err* identifiers, ReadFcall/WriteFcall, io.EOF …).
+
 func dspIdent(e ast.Expr) string {
 	if id, ok := e.(*ast.Ident); ok {
 		return id.Name
 	}
 	return ""
-}
-
-// dspSel matches X.F with X an identifier named x; returns F.
-func dspSel(e ast.Expr, x string) (string, bool) {
-	s, ok := e.(*ast.SelectorExpr)
-	if !ok || dspIdent(s.X) != x {
-		return "", false
-	}
-	return s.Sel.Name, true
 }
 
 func dspParen(e ast.Expr) ast.Expr {
@@ -234,6 +235,155 @@ func dspParen(e ast.Expr) ast.Expr {
 		}
 		e = p.X
 	}
+}
+
+// dspObj: the object an identifier or a selector's Sel denotes.
+func dspObj(c *Ctx, e ast.Expr) types.Object {
+	switch x := dspParen(e).(type) {
+	case *ast.Ident:
+		if o := c.Info.Uses[x]; o != nil {
+			return o
+		}
+		return c.Info.Defs[x]
+	case *ast.SelectorExpr:
+		return c.Info.Uses[x.Sel]
+	}
+	return nil
+}
+
+func dspIs(c *Ctx, e ast.Expr, o types.Object) bool {
+	if o == nil {
+		return false
+	}
+	id, ok := dspParen(e).(*ast.Ident)
+	return ok && dspObj(c, id) == o
+}
+
+func dspBuiltin(c *Ctx, e ast.Expr, name string) bool {
+	id, ok := dspParen(e).(*ast.Ident)
+	if !ok {
+		return false
+	}
+	b, ok := c.Info.Uses[id].(*types.Builtin)
+	return ok && b.Name() == name
+}
+
+func dspIsNil(c *Ctx, e ast.Expr) bool {
+	id, ok := dspParen(e).(*ast.Ident)
+	if !ok {
+		return false
+	}
+	_, isNil := c.Info.Uses[id].(*types.Nil)
+	return isNil
+}
+
+// dspFieldOf matches base.F (base an identifier denoting the object) and returns F.
+func dspFieldOf(c *Ctx, e ast.Expr, base func(types.Object) bool) (string, bool) {
+	s, ok := dspParen(e).(*ast.SelectorExpr)
+	if !ok {
+		return "", false
+	}
+	id, ok := dspParen(s.X).(*ast.Ident)
+	if !ok || !base(dspObj(c, id)) {
+		return "", false
+	}
+	return s.Sel.Name, true
+}
+
+func dspSame(o types.Object) func(types.Object) bool {
+	return func(x types.Object) bool { return o != nil && x == o }
+}
+
+func dspNamed(t types.Type) *types.Named {
+	if p, ok := t.(*types.Pointer); ok {
+		t = p.Elem()
+	}
+	n, _ := t.(*types.Named)
+	return n
+}
+
+func dspIsContext(t types.Type) bool { return strings.HasSuffix(t.String(), "context.Context") }
+
+// dspDeclOf finds the declaration of a function or method of this package.
+func dspDeclOf(c *Ctx, f types.Object) *ast.FuncDecl {
+	if f == nil {
+		return nil
+	}
+	for _, file := range c.Files {
+		for _, d := range file.Decls {
+			if fd, ok := d.(*ast.FuncDecl); ok && c.Info.Defs[fd.Name] == f {
+				return fd
+			}
+		}
+	}
+	return nil
+}
+
+// dspMethodsOf: the method declarations whose receiver's named type is n.
+func dspMethodsOf(c *Ctx, n *types.Named) []*ast.FuncDecl {
+	var out []*ast.FuncDecl
+	for _, file := range c.Files {
+		for _, d := range file.Decls {
+			fd, ok := d.(*ast.FuncDecl)
+			if !ok || fd.Recv == nil || fd.Body == nil {
+				continue
+			}
+			f, ok := c.Info.Defs[fd.Name].(*types.Func)
+			if !ok {
+				continue
+			}
+			if r := f.Type().(*types.Signature).Recv(); r != nil && dspNamed(r.Type()) != nil && dspNamed(r.Type()).Obj() == n.Obj() {
+				out = append(out, fd)
+			}
+		}
+	}
+	return out
+}
+
+func dspRecvObj(c *Ctx, fd *ast.FuncDecl) types.Object {
+	if fd.Recv == nil || len(fd.Recv.List) != 1 || len(fd.Recv.List[0].Names) != 1 {
+		return nil
+	}
+	return c.Info.Defs[fd.Recv.List[0].Names[0]]
+}
+
+func dspParamObjs(c *Ctx, ft *ast.FuncType) []types.Object {
+	var out []types.Object
+	if ft.Params == nil {
+		return out
+	}
+	for _, f := range ft.Params.List {
+		if len(f.Names) == 0 {
+			out = append(out, nil)
+		}
+		for _, n := range f.Names {
+			out = append(out, c.Info.Defs[n])
+		}
+	}
+	return out
+}
+
+func dspIface(c *Ctx, name string) (*types.Named, *types.Interface, error) {
+	o := c.Pkg.Scope().Lookup(name)
+	if o == nil {
+		return nil, nil, fmt.Errorf("type %s not found", name)
+	}
+	n, _ := o.Type().(*types.Named)
+	i, ok := o.Type().Underlying().(*types.Interface)
+	if n == nil || !ok {
+		return nil, nil, fmt.Errorf("%s is not an interface type", name)
+	}
+	return n, i, nil
+}
+
+// dspIsSendSig: func(context.Context, Message) (Message, error)
+func dspIsSendSig(t types.Type, msg *types.Named) bool {
+	sig, ok := t.(*types.Signature)
+	if !ok || sig.Params().Len() != 2 || sig.Results().Len() != 2 || sig.Variadic() {
+		return false
+	}
+	return dspIsContext(sig.Params().At(0).Type()) && types.Identical(sig.Params().At(1).Type(), msg) &&
+		types.Identical(sig.Results().At(0).Type(), msg) && dspIsErrorType(sig.Results().At(1).Type())
 }
 
 // dspUnconv peels integer type conversions T1(T2(... e ...)); conversions are returned innermost first.
@@ -256,48 +406,153 @@ func dspUnconv(c *Ctx, e ast.Expr) (ast.Expr, []dspConv, error) {
 		outer = append(outer, cv)
 		e = call.Args[0]
 	}
-	// reverse: innermost first
 	for i, j := 0, len(outer)-1; i < j; i, j = i+1, j-1 {
 		outer[i], outer[j] = outer[j], outer[i]
 	}
 	return e, outer, nil
 }
 
-func dspIsLen(e ast.Expr) (ast.Expr, bool) {
+func dspIsLen(c *Ctx, e ast.Expr) (ast.Expr, bool) {
 	call, ok := dspParen(e).(*ast.CallExpr)
-	if !ok || len(call.Args) != 1 || dspIdent(call.Fun) != "len" {
+	if !ok || len(call.Args) != 1 || !dspBuiltin(c, call.Fun, "len") {
 		return nil, false
 	}
 	return call.Args[0], true
 }
 
-func dspIsZeroExpr(e ast.Expr) bool {
-	switch x := e.(type) {
-	case *ast.Ident:
-		return x.Name == "nil"
-	case *ast.BasicLit:
-		return x.Kind == token.INT && x.Value == "0"
-	case *ast.CompositeLit:
-		return len(x.Elts) == 0
+func dspConstVal(c *Ctx, e ast.Expr) (int64, bool) {
+	tv, ok := c.Info.Types[e]
+	if !ok || tv.Value == nil {
+		return 0, false
+	}
+	return constant.Int64Val(constant.ToInt(tv.Value))
+}
+
+func dspConstIs(c *Ctx, e ast.Expr, v int64) bool {
+	x, ok := dspConstVal(c, e)
+	return ok && x == v
+}
+
+// dspIsZeroExpr: nil, a constant equal to the zero value, or T{}.
+func dspIsZeroExpr(c *Ctx, e ast.Expr) bool {
+	e = dspParen(e)
+	if dspIsNil(c, e) {
+		return true
+	}
+	if tv, ok := c.Info.Types[e]; ok && tv.Value != nil {
+		switch tv.Value.Kind() {
+		case constant.Int, constant.Float:
+			return constant.Sign(tv.Value) == 0
+		case constant.String:
+			return constant.StringVal(tv.Value) == ""
+		case constant.Bool:
+			return !constant.BoolVal(tv.Value)
+		}
+		return false
+	}
+	if cl, ok := e.(*ast.CompositeLit); ok {
+		return len(cl.Elts) == 0
 	}
 	return false
 }
 
-// dspZeroReturn: block is exactly `return z1, …, zk, <last>` with all z zero-value expressions; returns <last>.
-func dspZeroReturn(b *ast.BlockStmt, nres int) (ast.Expr, error) {
-	if b == nil || len(b.List) != 1 {
-		return nil, fmt.Errorf("block is not a single return")
+// dspZeroReturn: stmts is exactly `return z1, …, zk, <last>` with all z zero-value expressions; returns <last>.
+func dspZeroReturn(c *Ctx, stmts []ast.Stmt, nres int) (ast.Expr, error) {
+	if len(stmts) != 1 {
+		return nil, fmt.Errorf("branch is not a single return")
 	}
-	ret, ok := b.List[0].(*ast.ReturnStmt)
+	ret, ok := stmts[0].(*ast.ReturnStmt)
 	if !ok || len(ret.Results) != nres+1 {
-		return nil, fmt.Errorf("block is not `return` with %d values", nres+1)
+		return nil, fmt.Errorf("branch is not a `return` of %d values", nres+1)
 	}
 	for i := 0; i < nres; i++ {
-		if !dspIsZeroExpr(ret.Results[i]) {
+		if !dspIsZeroExpr(c, ret.Results[i]) {
 			return nil, fmt.Errorf("error-path return value %d is not a zero value", i)
 		}
 	}
 	return ret.Results[nres], nil
+}
+
+func dspElse(s ast.Stmt) ([]ast.Stmt, bool) {
+	switch e := s.(type) {
+	case nil:
+		return nil, true
+	case *ast.BlockStmt:
+		return e.List, true
+	}
+	return nil, false // else-if chains are not modelled
+}
+
+// dspSplit: stmts[0] is an if on `test` (cond says which branch is the "yes"
+// branch); returns the statements executed when test holds and when it does
+// not, accepting `if T {A}; B…`, `if T {A} else {B}`, and both for !T.
+// A branch that is followed by further statements must end in a return.
+func dspSplit(stmts []ast.Stmt, cond func(ast.Expr) (yes bool, ok bool)) (yesStmts, noStmts []ast.Stmt, ok bool) {
+	if len(stmts) == 0 {
+		return nil, nil, false
+	}
+	ifs, isIf := stmts[0].(*ast.IfStmt)
+	if !isIf || ifs.Init != nil {
+		return nil, nil, false
+	}
+	yes, okc := cond(ifs.Cond)
+	els, oke := dspElse(ifs.Else)
+	if !okc || !oke {
+		return nil, nil, false
+	}
+	rest := stmts[1:]
+	body := ifs.Body.List
+	if ifs.Else != nil {
+		if len(rest) != 0 {
+			return nil, nil, false
+		}
+		rest = els
+	} else if len(body) == 0 || !dspEndsInReturn(body) {
+		// falling out of the if into the rest: only modelled when the rest is empty
+		if len(rest) != 0 {
+			return nil, nil, false
+		}
+	}
+	if yes {
+		return body, rest, true
+	}
+	return rest, body, true
+}
+
+func dspEndsInReturn(stmts []ast.Stmt) bool {
+	if len(stmts) == 0 {
+		return false
+	}
+	_, ok := stmts[len(stmts)-1].(*ast.ReturnStmt)
+	return ok
+}
+
+// dspErrCond recognises `err != nil` / `nil != err` (yes) and `err == nil` (no) for the given error variable.
+func dspErrCond(c *Ctx, errObj types.Object) func(ast.Expr) (bool, bool) {
+	return func(e ast.Expr) (bool, bool) {
+		b, ok := dspParen(e).(*ast.BinaryExpr)
+		if !ok || (b.Op != token.NEQ && b.Op != token.EQL) {
+			return false, false
+		}
+		if !((dspIs(c, b.X, errObj) && dspIsNil(c, b.Y)) || (dspIs(c, b.Y, errObj) && dspIsNil(c, b.X))) {
+			return false, false
+		}
+		return b.Op == token.NEQ, true
+	}
+}
+
+// dspNotCond recognises `!ok` (yes) and `ok` (no).
+func dspNotCond(c *Ctx, okObj types.Object) func(ast.Expr) (bool, bool) {
+	return func(e ast.Expr) (bool, bool) {
+		e = dspParen(e)
+		if u, ok := e.(*ast.UnaryExpr); ok && u.Op == token.NOT && dspIs(c, u.X, okObj) {
+			return true, true
+		}
+		if dspIs(c, e, okObj) {
+			return false, true
+		}
+		return false, false
+	}
 }
 
 type dspField struct {
@@ -313,24 +568,21 @@ func dspFields(fs []dspField) string {
 	return "[" + strings.Join(parts, "; ") + "]"
 }
 
-type dspClient struct {
-	name, req, rep, unexpected, errExpr string
-	params, results                     []string
-	variadic                            bool
-	guards                              []string
-	fields                              []dspField
-	res                                 []string
-}
-
-func dspKeyedLiteral(e ast.Expr) (string, []*ast.KeyValueExpr, error) {
-	cl, ok := e.(*ast.CompositeLit)
+// dspKeyedLiteral: T{F: e, …} with T a named struct type of this package; returns T's name and the pairs.
+func dspKeyedLiteral(c *Ctx, e ast.Expr) (string, []*ast.KeyValueExpr, error) {
+	cl, ok := dspParen(e).(*ast.CompositeLit)
 	if !ok {
 		return "", nil, fmt.Errorf("not a composite literal")
 	}
-	tn := dspIdent(cl.Type)
-	if tn == "" {
+	tv, ok := c.Info.Types[cl]
+	n := (*types.Named)(nil)
+	if ok {
+		n = dspNamed(tv.Type)
+	}
+	if n == nil {
 		return "", nil, fmt.Errorf("composite literal of unnamed type")
 	}
+	tn := n.Obj().Name()
 	var kvs []*ast.KeyValueExpr
 	for _, el := range cl.Elts {
 		kv, ok := el.(*ast.KeyValueExpr)
@@ -342,48 +594,89 @@ func dspKeyedLiteral(e ast.Expr) (string, []*ast.KeyValueExpr, error) {
 	return tn, kvs, nil
 }
 
-func dspClientMethod(c *Ctx, fd *ast.FuncDecl, usedErrs map[string]bool) (*dspClient, error) {
+// dspPkgErr: e denotes a package-level error variable of this package; returns its name.
+func dspPkgErr(c *Ctx, e ast.Expr) (string, bool) {
+	id, ok := dspParen(e).(*ast.Ident)
+	if !ok {
+		return "", false
+	}
+	v, ok := c.Info.Uses[id].(*types.Var)
+	if !ok || v.Pkg() != c.Pkg || v.Parent() != c.Pkg.Scope() {
+		return "", false
+	}
+	return v.Name(), true
+}
+
+// dspStdVar: e is pkg.Name for a standard-library package path.
+func dspStdVar(c *Ctx, e ast.Expr, path, name string) bool {
+	s, ok := dspParen(e).(*ast.SelectorExpr)
+	if !ok {
+		return false
+	}
+	o := c.Info.Uses[s.Sel]
+	return o != nil && o.Pkg() != nil && o.Pkg().Path() == path && o.Name() == name
+}
+
+// ---------------------------------------------------------------- client: csession.go
+
+type dspClient struct {
+	name, req, rep, unexpected, errExpr string
+	params, results                     []string
+	variadic                            bool
+	guards                              []string
+	fields                              []dspField
+	res                                 []string
+}
+
+// dspSendCall: the call expression is a round trip `x.send(ctx, msg)`: any callee of type
+// func(context.Context, Message) (Message, error).
+func dspSendCall(c *Ctx, call *ast.CallExpr, msg *types.Named) bool {
+	tv, ok := c.Info.Types[call.Fun]
+	return ok && !tv.IsType() && len(call.Args) == 2 && dspIsSendSig(tv.Type, msg)
+}
+
+func dspClientMethod(c *Ctx, fd *ast.FuncDecl, msgT *types.Named, usedErrs map[string]bool) (*dspClient, error) {
 	name := fd.Name.Name
 	fail := func(format string, a ...interface{}) (*dspClient, error) {
-		return nil, fmt.Errorf("client.%s (%s): "+format, append([]interface{}{name, c.Fset.Position(fd.Pos())}, a...)...)
+		return nil, fmt.Errorf("client method %s (%s): "+format, append([]interface{}{name, c.Fset.Position(fd.Pos())}, a...)...)
 	}
 	obj, ok := c.Info.Defs[fd.Name].(*types.Func)
 	if !ok {
 		return fail("no type information")
 	}
 	sig := obj.Type().(*types.Signature)
-	params, results, variadic, err := dspSigKinds(sig, "client."+name)
+	params, results, variadic, err := dspSigKinds(sig, "client method "+name)
 	if err != nil {
 		return nil, err
 	}
 	m := &dspClient{name: name, params: params, results: results, variadic: variadic}
 	nres := len(results)
-	// parameter positions (after ctx)
-	ppos := map[string]int{}
+	ppos := map[types.Object]int{}
 	for i := 1; i < sig.Params().Len(); i++ {
-		ppos[sig.Params().At(i).Name()] = i - 1
+		ppos[sig.Params().At(i)] = i - 1
 	}
-	if dspIdent(fd.Type.Params.List[0].Names[0]) != "ctx" {
-		return fail("first parameter is not named ctx")
-	}
-	// named results
-	var resNames []string
-	for i := 0; i < sig.Results().Len(); i++ {
-		resNames = append(resNames, sig.Results().At(i).Name())
+	ctxObj := types.Object(sig.Params().At(0))
+	pidx := func(e ast.Expr) (int, bool) {
+		id, ok := dspParen(e).(*ast.Ident)
+		if !ok {
+			return 0, false
+		}
+		p, ok := ppos[dspObj(c, id)]
+		return p, ok
 	}
 	src := func(e ast.Expr) (string, error) {
 		inner, convs, err := dspUnconv(c, e)
 		if err != nil {
 			return "", err
 		}
-		if arg, ok := dspIsLen(inner); ok {
-			p, ok := ppos[dspIdent(arg)]
+		if arg, ok := dspIsLen(c, inner); ok {
+			p, ok := pidx(arg)
 			if !ok {
 				return "", fmt.Errorf("len of something that is not a parameter")
 			}
 			return fmt.Sprintf("CLen %d %s", p, dspConvs(convs)), nil
 		}
-		p, ok := ppos[dspIdent(inner)]
+		p, ok := pidx(inner)
 		if !ok {
 			return "", fmt.Errorf("field value is neither a parameter, len(parameter) nor an integer conversion of one")
 		}
@@ -391,72 +684,82 @@ func dspClientMethod(c *Ctx, fd *ast.FuncDecl, usedErrs map[string]bool) (*dspCl
 	}
 
 	stmts := fd.Body.List
+	// ---- before the round trip: guards and (optionally) the request literal bound to a local
+	locals := map[types.Object]ast.Expr{}
 	i := 0
-	// guards
-	for i < len(stmts) {
-		ifs, ok := stmts[i].(*ast.IfStmt)
-		if !ok {
-			break
-		}
-		be, ok := ifs.Cond.(*ast.BinaryExpr)
-		if !ok || be.Op != token.GTR || ifs.Init != nil || ifs.Else != nil {
-			return fail("guard of unrecognised shape")
-		}
-		arg, ok := dspIsLen(be.X)
-		p, okp := ppos[dspIdent(arg)]
-		tv := c.Info.Types[be.Y]
-		if !ok || !okp || tv.Value == nil {
-			return fail("guard is not `len(param) > constant`")
-		}
-		lim, _ := constant.Uint64Val(tv.Value)
-		last, err := dspZeroReturn(ifs.Body, nres)
-		if err != nil {
-			return fail("guard: %v", err)
-		}
-		en := dspIdent(last)
-		if !strings.HasPrefix(en, "Err") {
-			return fail("guard does not return a package Err* variable")
-		}
-		usedErrs[en] = true
-		m.guards = append(m.guards, fmt.Sprintf("{| cg_param := %d; cg_maxlen := %d; cg_err := %q |}", p, lim, en))
-		i++
-	}
-	// optional local request literal
-	locals := map[string]ast.Expr{}
-	if i < len(stmts) {
-		if as, ok := stmts[i].(*ast.AssignStmt); ok && as.Tok == token.DEFINE && len(as.Lhs) == 1 && len(as.Rhs) == 1 {
-			if _, isLit := as.Rhs[0].(*ast.CompositeLit); isLit {
-				locals[dspIdent(as.Lhs[0])] = as.Rhs[0]
-				i++
+	var call *ast.CallExpr
+	var respObj, errObj types.Object
+	for ; i < len(stmts) && call == nil; i++ {
+		switch st := stmts[i].(type) {
+		case *ast.IfStmt:
+			be, ok := dspParen(st.Cond).(*ast.BinaryExpr)
+			if !ok || st.Init != nil || st.Else != nil {
+				return fail("guard of unrecognised shape")
 			}
+			lhs, rhs, op := be.X, be.Y, be.Op
+			if op == token.LSS { // K < len(x)
+				lhs, rhs, op = rhs, lhs, token.GTR
+			}
+			arg, okl := dspIsLen(c, lhs)
+			lim, okk := dspConstVal(c, rhs)
+			if op != token.GTR || !okl || !okk || lim < 0 {
+				return fail("guard is not `len(param) > constant`")
+			}
+			p, okp := pidx(arg)
+			if !okp {
+				return fail("guard is not on a parameter")
+			}
+			last, err := dspZeroReturn(c, st.Body.List, nres)
+			if err != nil {
+				return fail("guard: %v", err)
+			}
+			en, ok := dspPkgErr(c, last)
+			if !ok {
+				return fail("guard does not return a package-level error variable")
+			}
+			usedErrs[en] = true
+			m.guards = append(m.guards, fmt.Sprintf("{| cg_param := %d; cg_maxlen := %d; cg_err := %q |}", p, lim, en))
+		case *ast.AssignStmt:
+			if st.Tok != token.DEFINE || len(st.Rhs) != 1 {
+				return fail("unrecognised assignment before the round trip")
+			}
+			if _, isLit := dspParen(st.Rhs[0]).(*ast.CompositeLit); isLit && len(st.Lhs) == 1 {
+				locals[c.Info.Defs[st.Lhs[0].(*ast.Ident)]] = st.Rhs[0]
+				continue
+			}
+			cx, ok := dspParen(st.Rhs[0]).(*ast.CallExpr)
+			if !ok || !dspSendCall(c, cx, msgT) || len(st.Lhs) != 2 {
+				return fail("expected `resp, err := <transport>.send(ctx, request)`")
+			}
+			l0, ok0 := st.Lhs[0].(*ast.Ident)
+			l1, ok1 := st.Lhs[1].(*ast.Ident)
+			if !ok0 || !ok1 {
+				return fail("round-trip results are not bound to identifiers")
+			}
+			// with a named error result `resp, err := …` assigns the result variable: Uses, not Defs
+			call, respObj, errObj = cx, dspObj(c, l0), dspObj(c, l1)
+			if respObj == nil || errObj == nil || l0.Name == "_" || l1.Name == "_" {
+				return fail("round-trip results are not bound to variables")
+			}
+		default:
+			return fail("unrecognised statement before the round trip (%s)", c.Fset.Position(st.Pos()))
 		}
 	}
-	// resp, err := c.transport.send(ctx, <literal>)
-	if i >= len(stmts) {
-		return fail("no send")
+	if call == nil {
+		return fail("no round trip found")
 	}
-	as, ok := stmts[i].(*ast.AssignStmt)
-	if !ok || as.Tok != token.DEFINE || len(as.Lhs) != 2 || len(as.Rhs) != 1 || dspIdent(as.Lhs[0]) != "resp" || dspIdent(as.Lhs[1]) != "err" {
-		return fail("expected `resp, err := c.transport.send(ctx, …)`")
-	}
-	call, ok := as.Rhs[0].(*ast.CallExpr)
-	if !ok || len(call.Args) != 2 || dspIdent(call.Args[0]) != "ctx" {
-		return fail("expected `c.transport.send(ctx, …)`")
-	}
-	if s, ok := call.Fun.(*ast.SelectorExpr); !ok || s.Sel.Name != "send" {
-		return fail("callee is not …send")
-	} else if t, ok := dspSel(s.X, "c"); !ok || t != "transport" {
-		return fail("callee is not c.transport.send")
+	if !dspIs(c, call.Args[0], ctxObj) {
+		return fail("the round trip is not made with the method's own context")
 	}
 	lit := call.Args[1]
-	if id := dspIdent(lit); id != "" {
-		l, ok := locals[id]
+	if id, ok := dspParen(lit).(*ast.Ident); ok {
+		l, ok := locals[dspObj(c, id)]
 		if !ok {
-			return fail("request argument %s is not a local bound to a literal", id)
+			return fail("request argument %s is not a local bound to a literal", id.Name)
 		}
 		lit = l
 	}
-	tn, kvs, err := dspKeyedLiteral(lit)
+	tn, kvs, err := dspKeyedLiteral(c, lit)
 	if err != nil {
 		return fail("request: %v", err)
 	}
@@ -468,189 +771,360 @@ func dspClientMethod(c *Ctx, fd *ast.FuncDecl, usedErrs map[string]bool) (*dspCl
 		}
 		m.fields = append(m.fields, dspField{dspIdent(kv.Key), s})
 	}
-	i++
-	// if err != nil { return zeros, err }
-	if i >= len(stmts) {
-		return fail("nothing follows the send")
+	// ---- transport error: zero values and err
+	errStmts, rest, ok := dspSplit(stmts[i:], dspErrCond(c, errObj))
+	if !ok {
+		return fail("the round trip is not followed by a test of its error")
 	}
-	ifs, ok := stmts[i].(*ast.IfStmt)
-	if !ok || !dspErrNotNil(ifs.Cond) || ifs.Init != nil || ifs.Else != nil {
-		return fail("send is not followed by `if err != nil {…}`")
+	if last, err := dspZeroReturn(c, errStmts, nres); err != nil || !dspIs(c, last, errObj) {
+		return fail("the transport-error path does not return zero values and the error")
 	}
-	if last, err := dspZeroReturn(ifs.Body, nres); err != nil || dspIdent(last) != "err" {
-		return fail("`if err != nil` does not return zero values and err")
+	// ---- which reply type is accepted: comma-ok assertion (as a statement or as the init of an if) or a type switch
+	good, bad, repName, isReply, err := dspReplyDispatch(c, rest, respObj)
+	if err != nil {
+		return fail("%v", err)
 	}
-	i++
-	// rX, ok := resp.(MessageRxxx)
-	if i >= len(stmts) {
-		return fail("no type assertion on resp")
+	m.rep = repName
+	last, err := dspZeroReturn(c, bad, nres)
+	if err != nil {
+		return fail("wrong-reply-type path: %v", err)
 	}
-	as, ok = stmts[i].(*ast.AssignStmt)
-	if !ok || as.Tok != token.DEFINE || len(as.Lhs) != 2 || len(as.Rhs) != 1 || dspIdent(as.Lhs[1]) != "ok" {
-		return fail("expected `r, ok := resp.(MessageR…)`")
+	en, ok := dspPkgErr(c, last)
+	if !ok {
+		return fail("wrong-reply-type path does not return a package-level error variable")
 	}
-	ta, ok := as.Rhs[0].(*ast.TypeAssertExpr)
-	if !ok || dspIdent(ta.X) != "resp" || dspIdent(ta.Type) == "" {
-		return fail("expected a type assertion on resp")
+	m.unexpected = en
+	usedErrs[en] = true
+
+	// ---- the accepted reply: results and error, by symbolic evaluation of the remaining statements
+	if len(good) == 0 {
+		return fail("missing final return")
 	}
-	m.rep = dspIdent(ta.Type)
-	rvar := dspIdent(as.Lhs[0])
-	i++
-	if i >= len(stmts) {
-		return fail("nothing follows the type assertion")
+	var resObjs []types.Object
+	for k := 0; k < sig.Results().Len(); k++ {
+		resObjs = append(resObjs, sig.Results().At(k))
 	}
-	ifs, ok = stmts[i].(*ast.IfStmt)
-	if !ok || ifs.Init != nil || ifs.Else != nil {
-		return fail("assertion is not followed by `if !ok {…}`")
-	}
-	if u, ok := ifs.Cond.(*ast.UnaryExpr); !ok || u.Op != token.NOT || dspIdent(u.X) != "ok" {
-		return fail("assertion is not followed by `if !ok {…}`")
-	}
-	last, err := dspZeroReturn(ifs.Body, nres)
-	if err != nil || !strings.HasPrefix(dspIdent(last), "Err") {
-		return fail("`if !ok` does not return zero values and a package Err* variable")
-	}
-	m.unexpected = dspIdent(last)
-	usedErrs[m.unexpected] = true
-	i++
-	// tail
-	copies := map[string]string{} // named result -> cres
-	m.errExpr = "CENil"
-	errAssigned := false
-	for ; i < len(stmts)-1; i++ {
-		switch st := stmts[i].(type) {
-		case *ast.AssignStmt:
-			// n = copy(p, r.F)
-			if st.Tok != token.ASSIGN || len(st.Lhs) != 1 || len(st.Rhs) != 1 {
-				return fail("tail: unrecognised assignment")
+	namedErr := resObjs[nres]
+	env := map[types.Object]ast.Expr{} // local or named result -> the expression it holds
+	// value: a result expression as a cres
+	var value func(e ast.Expr, depth int) (string, error)
+	value = func(e ast.Expr, depth int) (string, error) {
+		if depth > 8 {
+			return "", fmt.Errorf("expression too deep")
+		}
+		inner, convs, err := dspUnconv(c, e)
+		if err != nil {
+			return "", err
+		}
+		if id, ok := dspParen(inner).(*ast.Ident); ok {
+			def, ok := env[dspObj(c, id)]
+			if !ok {
+				return "", fmt.Errorf("identifier %s holds no known value", id.Name)
 			}
-			call, ok := st.Rhs[0].(*ast.CallExpr)
-			if !ok || dspIdent(call.Fun) != "copy" || len(call.Args) != 2 {
-				return fail("tail: assignment is not `n = copy(param, reply.F)`")
+			if len(convs) == 0 {
+				return value(def, depth+1)
 			}
-			p, okp := ppos[dspIdent(call.Args[0])]
-			f, okf := dspSel(call.Args[1], rvar)
+			in2, c2, err := dspUnconv(c, def)
+			if err != nil {
+				return "", err
+			}
+			f, okf := dspFieldOf(c, in2, isReply)
+			if !okf {
+				return "", fmt.Errorf("conversion of something that is not a reply field")
+			}
+			return fmt.Sprintf("CRField %q %s", f, dspConvs(append(append([]dspConv{}, c2...), convs...))), nil
+		}
+		if cx, ok := dspParen(inner).(*ast.CallExpr); ok && dspBuiltin(c, cx.Fun, "copy") && len(cx.Args) == 2 && len(convs) == 0 {
+			p, okp := pidx(cx.Args[0])
+			f, okf := dspFieldOf(c, cx.Args[1], isReply)
 			if !okp || !okf {
-				return fail("tail: copy is not from a reply field into a parameter")
+				return "", fmt.Errorf("copy is not from a reply field into a parameter")
 			}
-			copies[dspIdent(st.Lhs[0])] = fmt.Sprintf("CRCopy %d %q", p, f)
+			return fmt.Sprintf("CRCopy %d %q", p, f), nil
+		}
+		f, ok := dspFieldOf(c, inner, isReply)
+		if !ok {
+			return "", fmt.Errorf("not a field of the accepted reply")
+		}
+		return fmt.Sprintf("CRField %q %s", f, dspConvs(convs)), nil
+	}
+	// errRule: the condition under which a non-nil error is produced
+	errRule := func(cond ast.Expr, errVal ast.Expr) (string, error) {
+		be, ok := dspParen(cond).(*ast.BinaryExpr)
+		if !ok {
+			return "", fmt.Errorf("unrecognised condition")
+		}
+		lhs, rhs, op := be.X, be.Y, be.Op
+		switch {
+		case dspStdVar(c, errVal, "io", "EOF"):
+			if op == token.EQL && dspConstIs(c, lhs, 0) {
+				lhs, rhs = rhs, lhs
+			}
+			arg, okl := dspIsLen(c, lhs)
+			if op != token.EQL || !okl || !dspConstIs(c, rhs, 0) {
+				return "", fmt.Errorf("io.EOF is not produced under `len(reply.F) == 0`")
+			}
+			f, okf := dspFieldOf(c, arg, isReply)
+			if !okf {
+				return "", fmt.Errorf("io.EOF is not decided by a reply field")
+			}
+			return fmt.Sprintf("CEEofIfEmpty %q", f), nil
+		case dspStdVar(c, errVal, "io", "ErrShortWrite"):
+			if op == token.GTR {
+				lhs, rhs, op = rhs, lhs, token.LSS
+			}
+			arg, okl := dspIsLen(c, rhs)
+			if op != token.LSS || !okl {
+				return "", fmt.Errorf("io.ErrShortWrite is not produced under `conv(reply.F) < len(param)`")
+			}
+			p, okp := pidx(arg)
+			v, err := value(lhs, 0)
+			if err != nil || !okp || !strings.HasPrefix(v, "CRField ") {
+				return "", fmt.Errorf("io.ErrShortWrite is not produced under `conv(reply.F) < len(param)`")
+			}
+			return fmt.Sprintf("CEShortIfLess %s %d", strings.TrimPrefix(v, "CRField "), p), nil
+		}
+		return "", fmt.Errorf("unrecognised error value")
+	}
+	m.errExpr = "CENil"
+	errSet := false
+	setErr := func(rule string) error {
+		if errSet {
+			return fmt.Errorf("more than one error rule")
+		}
+		m.errExpr, errSet = rule, true
+		return nil
+	}
+	var early [][]ast.Expr // result expressions of early returns (must equal the final ones)
+	for _, st0 := range good[:len(good)-1] {
+		switch st := st0.(type) {
+		case *ast.AssignStmt:
+			if len(st.Lhs) != 1 || len(st.Rhs) != 1 || (st.Tok != token.ASSIGN && st.Tok != token.DEFINE) {
+				return fail("accepted reply: unrecognised assignment")
+			}
+			o := dspObj(c, st.Lhs[0])
+			if o == nil {
+				return fail("accepted reply: assignment to something that is not a variable")
+			}
+			if _, err := value(st.Rhs[0], 0); err != nil {
+				return fail("accepted reply: %v", err)
+			}
+			env[o] = st.Rhs[0]
 		case *ast.SwitchStmt:
-			// switch { case len(r.F) == 0: err = io.EOF ; case …: (empty) }
-			if st.Init != nil || st.Tag != nil || errAssigned {
-				return fail("tail: unrecognised switch")
+			if st.Init != nil || st.Tag != nil {
+				return fail("accepted reply: unrecognised switch")
 			}
-			for ci, cl := range st.Body.List {
+			for k, cl := range st.Body.List {
 				cc := cl.(*ast.CaseClause)
-				if ci == 0 {
-					if len(cc.List) != 1 || len(cc.Body) != 1 {
-						return fail("tail: first switch case of unrecognised shape")
-					}
-					be, ok := cc.List[0].(*ast.BinaryExpr)
-					if !ok || be.Op != token.EQL {
-						return fail("tail: first switch case is not `len(reply.F) == 0`")
-					}
-					arg, okl := dspIsLen(be.X)
-					f, okf := dspSel(arg, rvar)
-					if bl, okb := be.Y.(*ast.BasicLit); !okl || !okf || !okb || bl.Value != "0" {
-						return fail("tail: first switch case is not `len(reply.F) == 0`")
-					}
-					if !dspAssignsErr(cc.Body[0], "io", "EOF") {
-						return fail("tail: first switch case does not set err = io.EOF")
-					}
-					m.errExpr = fmt.Sprintf("CEEofIfEmpty %q", f)
-					errAssigned = true
-				} else if len(cc.Body) != 0 {
-					return fail("tail: a later switch case has a body (shape not modelled)")
+				if len(cc.Body) == 0 {
+					continue // an arm without statements does nothing
+				}
+				as, ok := cc.Body[0].(*ast.AssignStmt)
+				if k != 0 || len(cc.List) != 1 || len(cc.Body) != 1 || !ok || as.Tok != token.ASSIGN || len(as.Lhs) != 1 || len(as.Rhs) != 1 ||
+					namedErr.Name() == "" || !dspIs(c, as.Lhs[0], namedErr) {
+					return fail("accepted reply: switch arm of unrecognised shape")
+				}
+				rule, err := errRule(cc.List[0], as.Rhs[0])
+				if err == nil {
+					err = setErr(rule)
+				}
+				if err != nil {
+					return fail("accepted reply: %v", err)
 				}
 			}
 		case *ast.IfStmt:
-			// if int(r.F) < len(p) { err = io.ErrShortWrite }
-			if st.Init != nil || st.Else != nil || errAssigned || len(st.Body.List) != 1 {
-				return fail("tail: unrecognised if")
+			if st.Init != nil || st.Else != nil || len(st.Body.List) != 1 {
+				return fail("accepted reply: unrecognised if")
 			}
-			be, ok := st.Cond.(*ast.BinaryExpr)
-			if !ok || be.Op != token.LSS {
-				return fail("tail: if condition is not `conv(reply.F) < len(param)`")
+			switch b := st.Body.List[0].(type) {
+			case *ast.AssignStmt: // if cond { err = io.X }
+				if b.Tok != token.ASSIGN || len(b.Lhs) != 1 || len(b.Rhs) != 1 || namedErr.Name() == "" || !dspIs(c, b.Lhs[0], namedErr) {
+					return fail("accepted reply: if body is not an assignment to the error result")
+				}
+				rule, err := errRule(st.Cond, b.Rhs[0])
+				if err == nil {
+					err = setErr(rule)
+				}
+				if err != nil {
+					return fail("accepted reply: %v", err)
+				}
+			case *ast.ReturnStmt: // if cond { return vals…, io.X }
+				if len(b.Results) != nres+1 {
+					return fail("accepted reply: early return of the wrong arity")
+				}
+				rule, err := errRule(st.Cond, b.Results[nres])
+				if err == nil {
+					err = setErr(rule)
+				}
+				if err != nil {
+					return fail("accepted reply: %v", err)
+				}
+				early = append(early, b.Results[:nres])
+			default:
+				return fail("accepted reply: unrecognised if body")
 			}
-			inner, convs, err := dspUnconv(c, be.X)
-			if err != nil {
-				return fail("tail: %v", err)
-			}
-			f, okf := dspSel(inner, rvar)
-			arg, okl := dspIsLen(be.Y)
-			p, okp := ppos[dspIdent(arg)]
-			if !okf || !okl || !okp {
-				return fail("tail: if condition is not `conv(reply.F) < len(param)`")
-			}
-			if !dspAssignsErr(st.Body.List[0], "io", "ErrShortWrite") {
-				return fail("tail: if body does not set err = io.ErrShortWrite")
-			}
-			m.errExpr = fmt.Sprintf("CEShortIfLess %q %s %d", f, dspConvs(convs), p)
-			errAssigned = true
 		default:
-			return fail("tail: unrecognised statement at %s", c.Fset.Position(st.Pos()))
+			return fail("accepted reply: unrecognised statement at %s", c.Fset.Position(st0.Pos()))
 		}
 	}
-	if i != len(stmts)-1 {
-		return fail("missing final return")
-	}
-	ret, ok := stmts[i].(*ast.ReturnStmt)
+	ret, ok := good[len(good)-1].(*ast.ReturnStmt)
 	if !ok || len(ret.Results) != nres+1 {
 		return fail("final statement is not a return of %d values", nres+1)
 	}
 	for k := 0; k < nres; k++ {
-		e := ret.Results[k]
-		if id := dspIdent(e); id != "" {
-			cp, ok := copies[id]
-			if !ok || id != resNames[k] {
-				return fail("result %d is an identifier that is not the named result set by copy", k)
-			}
-			m.res = append(m.res, cp)
-			delete(copies, id)
-			continue
-		}
-		inner, convs, err := dspUnconv(c, e)
+		v, err := value(ret.Results[k], 0)
 		if err != nil {
 			return fail("result %d: %v", k, err)
 		}
-		f, ok := dspSel(inner, rvar)
-		if !ok {
-			return fail("result %d is not a field of the asserted reply", k)
+		for _, ev := range early {
+			if v2, err := value(ev[k], 0); err != nil || v2 != v {
+				return fail("result %d differs between an early return and the final return", k)
+			}
 		}
-		m.res = append(m.res, fmt.Sprintf("CRField %q %s", f, dspConvs(convs)))
+		m.res = append(m.res, v)
 	}
-	if len(copies) != 0 {
-		return fail("a copy() result is not returned")
-	}
-	switch dspIdent(ret.Results[nres]) {
-	case "nil":
-		if errAssigned {
-			return fail("err is computed but nil is returned")
+	switch {
+	case dspIsNil(c, ret.Results[nres]):
+		for _, st0 := range good[:len(good)-1] {
+			// a rule that ASSIGNS the error result and then returns nil would lose it
+			if ifs, ok := st0.(*ast.IfStmt); ok {
+				if _, isAs := ifs.Body.List[0].(*ast.AssignStmt); isAs {
+					return fail("an error is computed but nil is returned")
+				}
+			}
+			if _, ok := st0.(*ast.SwitchStmt); ok && errSet {
+				return fail("an error is computed but nil is returned")
+			}
 		}
-	case "err":
-		if resNames[nres] != "err" {
-			return fail("returns err but err is not the named error result")
-		}
+	case namedErr.Name() != "" && dspIs(c, ret.Results[nres], namedErr):
+		// the named error result: nil on this path unless a rule above assigned it
+	case dspIs(c, ret.Results[nres], errObj) && !errSet:
+		// the round trip's error variable, known to be nil on this path
 	default:
-		return fail("final error result is neither nil nor err")
+		return fail("final error result is neither nil nor the error result")
 	}
 	return m, nil
 }
 
-func dspErrNotNil(e ast.Expr) bool {
-	b, ok := e.(*ast.BinaryExpr)
-	return ok && b.Op == token.NEQ && dspIdent(b.X) == "err" && dspIdent(b.Y) == "nil"
+// dspReplyDispatch analyses how the reply's dynamic type is tested.  Accepted forms
+// (T a named message type):
+//
+//	r, ok := reply.(T); then a test of ok (either polarity, with or without else)
+//	if r, ok := reply.(T); ok {…} …   /   if _, ok := reply.(T); !ok {…} …
+//	switch r := reply.(type) { case T: …; default: … }   (default may be replaced by the statements that follow)
+//
+// Returns the statements run for an accepted reply, those run otherwise, T's name, and a
+// predicate recognising the variable that holds the accepted reply.
+func dspReplyDispatch(c *Ctx, stmts []ast.Stmt, respObj types.Object) (good, bad []ast.Stmt, rep string, isReply func(types.Object) bool, err error) {
+	none := func(types.Object) bool { return false }
+	if len(stmts) == 0 {
+		return nil, nil, "", none, fmt.Errorf("the reply's type is never tested")
+	}
+	assertion := func(as *ast.AssignStmt) (string, func(types.Object) bool, types.Object, bool) {
+		if as == nil || as.Tok != token.DEFINE || len(as.Lhs) != 2 || len(as.Rhs) != 1 {
+			return "", none, nil, false
+		}
+		ta, ok := dspParen(as.Rhs[0]).(*ast.TypeAssertExpr)
+		if !ok || !dspIs(c, ta.X, respObj) || ta.Type == nil {
+			return "", none, nil, false
+		}
+		tv, ok := c.Info.Types[ta.Type]
+		if !ok || dspNamed(tv.Type) == nil {
+			return "", none, nil, false
+		}
+		okId, isId := as.Lhs[1].(*ast.Ident)
+		if !isId || c.Info.Defs[okId] == nil {
+			return "", none, nil, false
+		}
+		pred := none
+		if id, ok := as.Lhs[0].(*ast.Ident); ok && id.Name != "_" {
+			pred = dspSame(c.Info.Defs[id])
+		}
+		return dspNamed(tv.Type).Obj().Name(), pred, c.Info.Defs[okId], true
+	}
+	switch st := stmts[0].(type) {
+	case *ast.AssignStmt:
+		rep, pred, okObj, ok := assertion(st)
+		if !ok {
+			return nil, nil, "", none, fmt.Errorf("expected `r, ok := reply.(MessageR…)`")
+		}
+		bad, good, ok2 := dspSplit(stmts[1:], dspNotCond(c, okObj))
+		if !ok2 {
+			return nil, nil, "", none, fmt.Errorf("the assertion is not followed by a test of its ok")
+		}
+		return good, bad, rep, pred, nil
+	case *ast.IfStmt:
+		as, _ := st.Init.(*ast.AssignStmt)
+		rep, pred, okObj, ok := assertion(as)
+		if !ok {
+			return nil, nil, "", none, fmt.Errorf("expected an assertion on the reply")
+		}
+		plain := *st
+		plain.Init = nil
+		bad, good, ok2 := dspSplit(append([]ast.Stmt{&plain}, stmts[1:]...), dspNotCond(c, okObj))
+		if !ok2 {
+			return nil, nil, "", none, fmt.Errorf("the assertion is not followed by a test of its ok")
+		}
+		return good, bad, rep, pred, nil
+	case *ast.TypeSwitchStmt:
+		if st.Init != nil {
+			return nil, nil, "", none, fmt.Errorf("type switch with an init statement")
+		}
+		var x ast.Expr
+		pred := none
+		switch a := st.Assign.(type) {
+		case *ast.ExprStmt:
+			x = a.X
+		case *ast.AssignStmt:
+			if len(a.Lhs) == 1 && len(a.Rhs) == 1 {
+				x = a.Rhs[0]
+				symPos := a.Lhs[0].Pos()
+				pred = func(o types.Object) bool {
+					v, ok := o.(*types.Var)
+					return ok && v.Pos() == symPos
+				}
+			}
+		}
+		ta, ok := dspParen(x).(*ast.TypeAssertExpr)
+		if !ok || ta.Type != nil || !dspIs(c, ta.X, respObj) {
+			return nil, nil, "", none, fmt.Errorf("type switch is not on the reply")
+		}
+		var dflt []ast.Stmt
+		hasDefault := false
+		for _, cl := range st.Body.List {
+			cc := cl.(*ast.CaseClause)
+			if cc.List == nil {
+				dflt, hasDefault = cc.Body, true
+				continue
+			}
+			if good != nil || len(cc.List) != 1 {
+				return nil, nil, "", none, fmt.Errorf("type switch accepts more than one reply type")
+			}
+			tv, ok := c.Info.Types[cc.List[0]]
+			if !ok || dspNamed(tv.Type) == nil {
+				return nil, nil, "", none, fmt.Errorf("type switch case of unnamed type")
+			}
+			rep, good = dspNamed(tv.Type).Obj().Name(), cc.Body
+		}
+		if good == nil || !dspEndsInReturn(good) {
+			return nil, nil, "", none, fmt.Errorf("type switch has no case for a reply type that ends in a return")
+		}
+		switch {
+		case hasDefault && len(stmts) == 1:
+			bad = dflt
+		case !hasDefault:
+			bad = stmts[1:]
+		case hasDefault && len(dflt) == 0:
+			bad = stmts[1:]
+		default:
+			return nil, nil, "", none, fmt.Errorf("type switch with a default arm is followed by further statements")
+		}
+		return good, bad, rep, pred, nil
+	}
+	return nil, nil, "", none, fmt.Errorf("the reply's type is not tested right after the transport-error test")
 }
 
-// dspAssignsErr: statement is `err = pkg.name`
-func dspAssignsErr(st ast.Stmt, pkg, name string) bool {
-	as, ok := st.(*ast.AssignStmt)
-	if !ok || as.Tok != token.ASSIGN || len(as.Lhs) != 1 || len(as.Rhs) != 1 || dspIdent(as.Lhs[0]) != "err" {
-		return false
-	}
-	f, ok := dspSel(as.Rhs[0], pkg)
-	return ok && f == name
-}
+// ---------------------------------------------------------------- server: ssesssion.go
 
 type dspServer struct {
 	msg, method, rep string
@@ -659,125 +1133,185 @@ type dspServer struct {
 	rfields          []dspField
 }
 
-func dspServerCase(c *Ctx, cc *ast.CaseClause, iface *types.Interface, msgVar string) (*dspServer, error) {
-	tn := dspIdent(cc.List[0])
+type dspHandlerEnv struct {
+	isSession func(ast.Expr) bool // the expression denotes the served Session
+	isMsize   func(ast.Expr) bool // the expression denotes the msize taken from session.Version()
+	isMsg     func(types.Object) bool
+	ctxObj    types.Object
+	iface     *types.Interface
+}
+
+// dspMsizeMinus matches `x OP msize-K` (or `msize-K OP' x`) and returns K.
+func dspMsizeMinus(c *Ctx, env *dspHandlerEnv, e ast.Expr, x types.Object) (int64, bool) {
+	be, ok := dspParen(e).(*ast.BinaryExpr)
+	if !ok {
+		return 0, false
+	}
+	lhs, rhs, op := be.X, be.Y, be.Op
+	if op == token.LSS {
+		lhs, rhs, op = rhs, lhs, token.GTR
+	}
+	if op != token.GTR || !dspIs(c, lhs, x) {
+		return 0, false
+	}
+	return dspMsizeSub(c, env, rhs)
+}
+
+// dspMsizeSub matches `msize - K`.
+func dspMsizeSub(c *Ctx, env *dspHandlerEnv, e ast.Expr) (int64, bool) {
+	sub, ok := dspParen(e).(*ast.BinaryExpr)
+	if !ok || sub.Op != token.SUB || !env.isMsize(sub.X) {
+		return 0, false
+	}
+	return dspConstVal(c, sub.Y)
+}
+
+func dspServerCase(c *Ctx, cc *ast.CaseClause, env *dspHandlerEnv) (*dspServer, error) {
+	tvc, ok := c.Info.Types[cc.List[0]]
+	if !ok || dspNamed(tvc.Type) == nil {
+		return nil, fmt.Errorf("Handle (%s): case of unnamed type", c.Fset.Position(cc.Pos()))
+	}
+	tn := dspNamed(tvc.Type).Obj().Name()
 	pos := c.Fset.Position(cc.Pos())
 	fail := func(format string, a ...interface{}) (*dspServer, error) {
-		return nil, fmt.Errorf("sessionHandler.Handle case %s (%s): "+format, append([]interface{}{tn, pos}, a...)...)
+		return nil, fmt.Errorf("Handle case %s (%s): "+format, append([]interface{}{tn, pos}, a...)...)
 	}
 	s := &dspServer{msg: tn}
 	stmts := cc.Body
 	i := 0
-	// optional Tread clamp block: count := int(msg.F); if count > msize-K {…}; p := make([]byte, count)
-	bufs := map[string]string{} // local buffer variable -> ssrc
+	// optional Tread clamp block: count := int(msg.F); if count > msize-K { count = msize-K; if count < 0 { count = 0 } }; p := make([]byte, count)
+	bufs := map[types.Object]string{} // local buffer variable -> ssrc
 	if len(stmts) >= 3 {
 		if as, ok := stmts[0].(*ast.AssignStmt); ok && as.Tok == token.DEFINE && len(as.Lhs) == 1 && len(as.Rhs) == 1 {
-			if call, ok := as.Rhs[0].(*ast.CallExpr); ok && dspIdent(call.Fun) == "int" && len(call.Args) == 1 {
-				cnt := dspIdent(as.Lhs[0])
-				f, okf := dspSel(call.Args[0], msgVar)
-				if !okf {
-					return fail("clamp: count is not int(%s.F)", msgVar)
+			if cx, ok := dspParen(as.Rhs[0]).(*ast.CallExpr); ok && len(cx.Args) == 1 {
+				tvf, okt := c.Info.Types[cx.Fun]
+				isInt := false
+				if okt && tvf.IsType() {
+					if b, ok := tvf.Type.Underlying().(*types.Basic); ok && b.Kind() == types.Int {
+						isInt = true
+					}
 				}
-				ifs, ok := stmts[1].(*ast.IfStmt)
-				if !ok || ifs.Init != nil || ifs.Else != nil || len(ifs.Body.List) != 2 {
-					return fail("clamp: second statement is not the two-statement if")
+				if f, okf := dspFieldOf(c, cx.Args[0], env.isMsg); isInt && okf {
+					cnt := c.Info.Defs[as.Lhs[0].(*ast.Ident)]
+					ifs, ok := stmts[1].(*ast.IfStmt)
+					if !ok || ifs.Init != nil || ifs.Else != nil || len(ifs.Body.List) != 2 {
+						return fail("clamp: second statement is not the two-statement if")
+					}
+					k, ok := dspMsizeMinus(c, env, ifs.Cond, cnt)
+					if !ok {
+						return fail("clamp: condition is not `count > msize-K`")
+					}
+					a1, ok := ifs.Body.List[0].(*ast.AssignStmt)
+					if !ok || a1.Tok != token.ASSIGN || len(a1.Lhs) != 1 || !dspIs(c, a1.Lhs[0], cnt) || len(a1.Rhs) != 1 {
+						return fail("clamp: body does not start with `count = msize - K`")
+					}
+					if k2, ok := dspMsizeSub(c, env, a1.Rhs[0]); !ok || k2 != k {
+						return fail("clamp: body does not start with `count = msize - %d`", k)
+					}
+					in, ok := ifs.Body.List[1].(*ast.IfStmt)
+					if !ok || in.Init != nil || in.Else != nil || len(in.Body.List) != 1 {
+						return fail("clamp: missing `if count < 0 { count = 0 }`")
+					}
+					if be, ok := dspParen(in.Cond).(*ast.BinaryExpr); !ok || !((be.Op == token.LSS && dspIs(c, be.X, cnt) && dspConstIs(c, be.Y, 0)) || (be.Op == token.GTR && dspIs(c, be.Y, cnt) && dspConstIs(c, be.X, 0))) {
+						return fail("clamp: inner condition is not `count < 0`")
+					}
+					if a2, ok := in.Body.List[0].(*ast.AssignStmt); !ok || a2.Tok != token.ASSIGN || len(a2.Lhs) != 1 || !dspIs(c, a2.Lhs[0], cnt) || len(a2.Rhs) != 1 || !dspConstIs(c, a2.Rhs[0], 0) {
+						return fail("clamp: inner body is not `count = 0`")
+					}
+					mk, ok := stmts[2].(*ast.AssignStmt)
+					if !ok || mk.Tok != token.DEFINE || len(mk.Lhs) != 1 || len(mk.Rhs) != 1 {
+						return fail("clamp: third statement is not `p := make([]byte, count)`")
+					}
+					mc, ok := dspParen(mk.Rhs[0]).(*ast.CallExpr)
+					if !ok || !dspBuiltin(c, mc.Fun, "make") || len(mc.Args) != 2 || !dspIs(c, mc.Args[1], cnt) {
+						return fail("clamp: third statement is not `p := make([]byte, count)`")
+					}
+					tvm, okm := c.Info.Types[mc.Args[0]]
+					isBytes := false
+					if okm {
+						if sl, ok := tvm.Type.Underlying().(*types.Slice); ok {
+							if b, ok := sl.Elem().Underlying().(*types.Basic); ok && b.Kind() == types.Uint8 {
+								isBytes = true
+							}
+						}
+					}
+					if !isBytes {
+						return fail("clamp: make of something other than []byte")
+					}
+					bufs[c.Info.Defs[mk.Lhs[0].(*ast.Ident)]] = fmt.Sprintf("SBuf %q (%d)%%Z", f, k)
+					i = 3
 				}
-				k, ok := dspMsizeMinus(c, ifs.Cond, token.GTR, cnt)
-				if !ok {
-					return fail("clamp: condition is not `%s > msize-K`", cnt)
-				}
-				a1, ok := ifs.Body.List[0].(*ast.AssignStmt)
-				if !ok || a1.Tok != token.ASSIGN || len(a1.Lhs) != 1 || dspIdent(a1.Lhs[0]) != cnt || len(a1.Rhs) != 1 {
-					return fail("clamp: body does not start with `%s = msize - K`", cnt)
-				}
-				if be, ok := a1.Rhs[0].(*ast.BinaryExpr); !ok || be.Op != token.SUB || dspIdent(be.X) != "msize" || !dspConstIs(c, be.Y, k) {
-					return fail("clamp: body does not start with `%s = msize - %d`", cnt, k)
-				}
-				in, ok := ifs.Body.List[1].(*ast.IfStmt)
-				if !ok || in.Init != nil || in.Else != nil || len(in.Body.List) != 1 {
-					return fail("clamp: missing `if %s < 0 { %s = 0 }`", cnt, cnt)
-				}
-				if be, ok := in.Cond.(*ast.BinaryExpr); !ok || be.Op != token.LSS || dspIdent(be.X) != cnt || !dspConstIs(c, be.Y, 0) {
-					return fail("clamp: inner condition is not `%s < 0`", cnt)
-				}
-				if a2, ok := in.Body.List[0].(*ast.AssignStmt); !ok || a2.Tok != token.ASSIGN || len(a2.Lhs) != 1 || dspIdent(a2.Lhs[0]) != cnt || len(a2.Rhs) != 1 || !dspConstIs(c, a2.Rhs[0], 0) {
-					return fail("clamp: inner body is not `%s = 0`", cnt)
-				}
-				mk, ok := stmts[2].(*ast.AssignStmt)
-				if !ok || mk.Tok != token.DEFINE || len(mk.Lhs) != 1 || len(mk.Rhs) != 1 {
-					return fail("clamp: third statement is not `p := make([]byte, %s)`", cnt)
-				}
-				mc, ok := mk.Rhs[0].(*ast.CallExpr)
-				if !ok || dspIdent(mc.Fun) != "make" || len(mc.Args) != 2 || dspIdent(mc.Args[1]) != cnt {
-					return fail("clamp: third statement is not `p := make([]byte, %s)`", cnt)
-				}
-				if at, ok := mc.Args[0].(*ast.ArrayType); !ok || at.Len != nil || dspIdent(at.Elt) != "byte" {
-					return fail("clamp: make of something other than []byte")
-				}
-				bufs[dspIdent(mk.Lhs[0])] = fmt.Sprintf("SBuf %q (%d)%%Z", f, k)
-				i = 3
 			}
 		}
 	}
 	if i >= len(stmts) {
 		return fail("empty case")
 	}
-	// the session call: `r…, err := session.M(ctx, …)` + `if err != nil {return nil, err}`, or `if err := session.M(ctx, …); err != nil {return nil, err}`
+	// the session call: `r…, err := session.M(ctx, …)` then a test of err, or `if err := session.M(ctx, …); err != nil {…}`
 	var call *ast.CallExpr
-	var resVars []string
-	var check *ast.IfStmt
+	var resVars []types.Object
+	var errObj types.Object
+	var after []ast.Stmt
 	switch st := stmts[i].(type) {
 	case *ast.AssignStmt:
-		if st.Tok != token.DEFINE || len(st.Rhs) != 1 || len(st.Lhs) < 1 || dspIdent(st.Lhs[len(st.Lhs)-1]) != "err" {
+		if st.Tok != token.DEFINE || len(st.Rhs) != 1 || len(st.Lhs) < 1 {
 			return fail("expected `…, err := session.M(ctx, …)`")
 		}
-		call, _ = st.Rhs[0].(*ast.CallExpr)
-		for _, l := range st.Lhs[:len(st.Lhs)-1] {
-			if dspIdent(l) == "" || dspIdent(l) == "_" {
+		call, _ = dspParen(st.Rhs[0]).(*ast.CallExpr)
+		for k, l := range st.Lhs {
+			id, ok := l.(*ast.Ident)
+			if !ok || id.Name == "_" || dspObj(c, id) == nil {
 				return fail("a result of the session call is not bound to a variable")
 			}
-			resVars = append(resVars, dspIdent(l))
+			if k == len(st.Lhs)-1 {
+				errObj = dspObj(c, id)
+			} else {
+				resVars = append(resVars, dspObj(c, id))
+			}
 		}
-		i++
-		if i >= len(stmts) {
-			return fail("nothing follows the session call")
-		}
-		check, _ = stmts[i].(*ast.IfStmt)
-		if check == nil || check.Init != nil {
-			return fail("session call is not followed by `if err != nil {…}`")
-		}
+		after = stmts[i+1:]
 	case *ast.IfStmt:
 		as, ok := st.Init.(*ast.AssignStmt)
-		if !ok || as.Tok != token.DEFINE || len(as.Lhs) != 1 || dspIdent(as.Lhs[0]) != "err" || len(as.Rhs) != 1 {
+		if !ok || as.Tok != token.DEFINE || len(as.Lhs) != 1 || len(as.Rhs) != 1 {
 			return fail("expected `if err := session.M(ctx, …); err != nil`")
 		}
-		call, _ = as.Rhs[0].(*ast.CallExpr)
-		check = st
+		call, _ = dspParen(as.Rhs[0]).(*ast.CallExpr)
+		if id, ok := as.Lhs[0].(*ast.Ident); ok {
+			errObj = c.Info.Defs[id]
+		}
+		// the same if without its init statement, followed by the rest
+		plain := *st
+		plain.Init = nil
+		after = append([]ast.Stmt{&plain}, stmts[i+1:]...)
 	default:
 		return fail("unrecognised statement where the session call is expected")
 	}
-	if call == nil {
-		return fail("no session call")
+	if call == nil || errObj == nil || !dspIsErrorType(errObj.Type()) {
+		return fail("no session call whose last result is bound as the error")
 	}
-	meth, ok := dspSel(call.Fun, "session")
-	if !ok {
-		return fail("callee is not session.M")
+	sel, ok := dspParen(call.Fun).(*ast.SelectorExpr)
+	if !ok || !env.isSession(sel.X) {
+		return fail("callee is not a method of the served session")
 	}
+	meth := sel.Sel.Name
 	s.method = meth
-	if len(call.Args) < 1 || dspIdent(call.Args[0]) != "ctx" {
-		return fail("session.%s is not called with the handler's ctx first", meth)
+	if len(call.Args) < 1 || !dspIs(c, call.Args[0], env.ctxObj) {
+		return fail("session.%s is not called with the handler's context first", meth)
 	}
-	if !dspErrNotNil(check.Cond) || check.Else != nil {
-		return fail("error check is not `err != nil` without else")
+	errStmts, okStmts, ok := dspSplit(after, dspErrCond(c, errObj))
+	if !ok {
+		return fail("the session call is not followed by a test of its error")
 	}
-	if ret, ok := dspSingleReturn(check.Body); !ok || len(ret.Results) != 2 || dspIdent(ret.Results[0]) != "nil" || dspIdent(ret.Results[1]) != "err" {
+	if len(errStmts) != 1 {
 		return fail("error path is not `return nil, err`")
 	}
-	// signature from the interface
+	if ret, ok := errStmts[0].(*ast.ReturnStmt); !ok || len(ret.Results) != 2 || !dspIsNil(c, ret.Results[0]) || !dspIs(c, ret.Results[1], errObj) {
+		return fail("error path is not `return nil, err`")
+	}
 	var sig *types.Signature
-	for k := 0; k < iface.NumMethods(); k++ {
-		if iface.Method(k).Name() == meth {
-			sig = iface.Method(k).Type().(*types.Signature)
+	for k := 0; k < env.iface.NumMethods(); k++ {
+		if env.iface.Method(k).Name() == meth {
+			sig = env.iface.Method(k).Type().(*types.Signature)
 		}
 	}
 	if sig == nil {
@@ -787,59 +1321,75 @@ func dspServerCase(c *Ctx, cc *ast.CaseClause, iface *types.Interface, msgVar st
 		return fail("session.%s: %d results bound, the interface has %d before error", meth, len(resVars), sig.Results().Len()-1)
 	}
 	s.nres = len(resVars)
-	bufArg := map[string]int{}
+	bufArg := map[types.Object]int{}
 	for k, a := range call.Args[1:] {
 		last := k == len(call.Args)-2
 		if last && call.Ellipsis.IsValid() {
-			f, ok := dspSel(a, msgVar)
+			f, ok := dspFieldOf(c, a, env.isMsg)
 			if !ok {
-				return fail("argument %d: spread of something that is not %s.F", k, msgVar)
+				return fail("argument %d: spread of something that is not a field of the message", k)
 			}
 			s.args = append(s.args, fmt.Sprintf("SSpread %q", f))
 			continue
 		}
-		if id := dspIdent(a); id != "" {
-			b, ok := bufs[id]
+		if id, ok := dspParen(a).(*ast.Ident); ok {
+			o := dspObj(c, id)
+			b, ok := bufs[o]
 			if !ok {
-				return fail("argument %d: identifier %s is not the clamped buffer", k, id)
+				return fail("argument %d: identifier %s is not the clamped buffer", k, id.Name)
 			}
 			s.args = append(s.args, b)
-			bufArg[id] = k
+			bufArg[o] = k
 			continue
 		}
 		inner, convs, err := dspUnconv(c, a)
 		if err != nil {
 			return fail("argument %d: %v", k, err)
 		}
-		f, ok := dspSel(inner, msgVar)
+		f, ok := dspFieldOf(c, inner, env.isMsg)
 		if !ok {
-			return fail("argument %d is not %s.F (possibly converted)", k, msgVar)
+			return fail("argument %d is not a field of the message (possibly converted)", k)
 		}
 		s.args = append(s.args, fmt.Sprintf("SField %q %s", f, dspConvs(convs)))
 	}
-	i++
-	if i != len(stmts)-1 {
-		return fail("expected exactly one statement (the reply return) after the error check")
+	if len(okStmts) != 1 {
+		return fail("expected exactly one statement (the reply return) on the success path")
 	}
-	ret, ok := stmts[i].(*ast.ReturnStmt)
-	if !ok || len(ret.Results) != 2 || dspIdent(ret.Results[1]) != "nil" {
-		return fail("final statement is not `return MessageR…{…}, nil`")
+	ret, ok := okStmts[0].(*ast.ReturnStmt)
+	if !ok || len(ret.Results) != 2 || !dspIsNil(c, ret.Results[1]) {
+		return fail("success path is not `return MessageR…{…}, nil`")
 	}
-	rn, kvs, err := dspKeyedLiteral(ret.Results[0])
+	rn, kvs, err := dspKeyedLiteral(c, ret.Results[0])
 	if err != nil {
 		return fail("reply: %v", err)
 	}
 	s.rep = rn
-	resPos := map[string]int{}
+	resPos := map[types.Object]int{}
 	for k, v := range resVars {
 		resPos[v] = k
 	}
+	rpos := func(e ast.Expr) (int, bool) {
+		id, ok := dspParen(e).(*ast.Ident)
+		if !ok {
+			return 0, false
+		}
+		k, ok := resPos[dspObj(c, id)]
+		return k, ok
+	}
 	for _, kv := range kvs {
 		fname := dspIdent(kv.Key)
-		if sl, ok := kv.Value.(*ast.SliceExpr); ok {
-			ba, okb := bufArg[dspIdent(sl.X)]
-			ri, okr := resPos[dspIdent(sl.High)]
-			if !okb || !okr || sl.Low != nil || sl.Slice3 {
+		if sl, ok := dspParen(kv.Value).(*ast.SliceExpr); ok {
+			ba, okb := 0, false
+			if id, ok := dspParen(sl.X).(*ast.Ident); ok {
+				ba, okb = bufArg[dspObj(c, id)]
+			}
+			okr := false
+			ri := 0
+			if sl.High != nil {
+				ri, okr = rpos(sl.High)
+			}
+			lowOK := sl.Low == nil || dspConstIs(c, sl.Low, 0)
+			if !okb || !okr || !lowOK || sl.Slice3 {
 				return fail("reply field %s: slice is not buffer[:result]", fname)
 			}
 			s.rfields = append(s.rfields, dspField{fname, fmt.Sprintf("SRSlice %d %d", ba, ri)})
@@ -849,7 +1399,7 @@ func dspServerCase(c *Ctx, cc *ast.CaseClause, iface *types.Interface, msgVar st
 		if err != nil {
 			return fail("reply field %s: %v", fname, err)
 		}
-		ri, ok := resPos[dspIdent(inner)]
+		ri, ok := rpos(inner)
 		if !ok {
 			return fail("reply field %s is not a result of the session call", fname)
 		}
@@ -858,43 +1408,11 @@ func dspServerCase(c *Ctx, cc *ast.CaseClause, iface *types.Interface, msgVar st
 	return s, nil
 }
 
-func dspSingleReturn(b *ast.BlockStmt) (*ast.ReturnStmt, bool) {
-	if b == nil || len(b.List) != 1 {
-		return nil, false
-	}
-	r, ok := b.List[0].(*ast.ReturnStmt)
-	return r, ok
-}
-
-func dspConstIs(c *Ctx, e ast.Expr, v int64) bool {
-	tv, ok := c.Info.Types[e]
-	if !ok || tv.Value == nil {
-		return false
-	}
-	x, ok := constant.Int64Val(tv.Value)
-	return ok && x == v
-}
-
-// dspMsizeMinus matches `x OP msize-K` and returns K.
-func dspMsizeMinus(c *Ctx, e ast.Expr, op token.Token, x string) (int64, bool) {
-	be, ok := e.(*ast.BinaryExpr)
-	if !ok || be.Op != op || dspIdent(be.X) != x {
-		return 0, false
-	}
-	sub, ok := be.Y.(*ast.BinaryExpr)
-	if !ok || sub.Op != token.SUB || dspIdent(sub.X) != "msize" {
-		return 0, false
-	}
-	tv, ok := c.Info.Types[sub.Y]
-	if !ok || tv.Value == nil {
-		return 0, false
-	}
-	k, ok := constant.Int64Val(tv.Value)
-	return k, ok
-}
-
-// dspErrName finds `Name = new9pError("text")` among the package-level vars.
-func dspErrName(c *Ctx, name string) (string, error) {
+// dspErrEname: the Ename of a package-level error variable initialised by
+// MessageRerror{Ename: "…"} or by a same-package helper f("…") whose body
+// returns such a literal built from its parameter.
+func dspErrEname(c *Ctx, name string) (string, error) {
+	obj := c.Pkg.Scope().Lookup(name)
 	for _, f := range c.Files {
 		for _, d := range f.Decls {
 			gd, ok := d.(*ast.GenDecl)
@@ -904,18 +1422,59 @@ func dspErrName(c *Ctx, name string) (string, error) {
 			for _, sp := range gd.Specs {
 				vs := sp.(*ast.ValueSpec)
 				for k, n := range vs.Names {
-					if n.Name != name || k >= len(vs.Values) {
+					if c.Info.Defs[n] != obj || obj == nil || k >= len(vs.Values) {
 						continue
 					}
-					call, ok := vs.Values[k].(*ast.CallExpr)
-					if !ok || dspIdent(call.Fun) != "new9pError" || len(call.Args) != 1 {
-						return "", fmt.Errorf("%s is not initialised by new9pError(\"…\")", name)
+					v := dspParen(vs.Values[k])
+					lit := func(e ast.Expr, arg func(ast.Expr) (string, bool)) (string, bool) {
+						cl, ok := dspParen(e).(*ast.CompositeLit)
+						if !ok || len(cl.Elts) != 1 {
+							return "", false
+						}
+						tv, ok := c.Info.Types[cl]
+						if !ok || dspNamed(tv.Type) == nil || dspNamed(tv.Type).Obj().Name() != "MessageRerror" {
+							return "", false
+						}
+						el := cl.Elts[0]
+						if kv, ok := el.(*ast.KeyValueExpr); ok {
+							if dspIdent(kv.Key) != "Ename" {
+								return "", false
+							}
+							el = kv.Value
+						}
+						return arg(el)
 					}
-					tv, ok := c.Info.Types[call.Args[0]]
-					if !ok || tv.Value == nil || tv.Value.Kind() != constant.String {
-						return "", fmt.Errorf("%s: argument of new9pError is not a constant string", name)
+					constStr := func(e ast.Expr) (string, bool) {
+						tv, ok := c.Info.Types[e]
+						if !ok || tv.Value == nil || tv.Value.Kind() != constant.String {
+							return "", false
+						}
+						return constant.StringVal(tv.Value), true
 					}
-					return constant.StringVal(tv.Value), nil
+					if s, ok := lit(v, constStr); ok {
+						return s, nil
+					}
+					call, ok := v.(*ast.CallExpr)
+					if !ok || len(call.Args) != 1 {
+						return "", fmt.Errorf("%s is initialised neither by MessageRerror{Ename: \"…\"} nor by a helper call with one string", name)
+					}
+					text, ok := constStr(call.Args[0])
+					if !ok {
+						return "", fmt.Errorf("%s: the helper's argument is not a constant string", name)
+					}
+					hd := dspDeclOf(c, dspObj(c, call.Fun))
+					if hd == nil || hd.Body == nil || len(hd.Body.List) != 1 {
+						return "", fmt.Errorf("%s: cannot see through its initialiser's helper function", name)
+					}
+					ret, ok := hd.Body.List[0].(*ast.ReturnStmt)
+					ps := dspParamObjs(c, hd.Type)
+					if !ok || len(ret.Results) != 1 || len(ps) != 1 {
+						return "", fmt.Errorf("%s: helper is not `return MessageRerror{Ename: s}`", name)
+					}
+					if _, ok := lit(ret.Results[0], func(e ast.Expr) (string, bool) { return "", dspIs(c, e, ps[0]) }); !ok {
+						return "", fmt.Errorf("%s: helper is not `return MessageRerror{Ename: s}`", name)
+					}
+					return text, nil
 				}
 			}
 		}
@@ -923,23 +1482,98 @@ func dspErrName(c *Ctx, name string) (string, error) {
 	return "", fmt.Errorf("package variable %s not found", name)
 }
 
+// dspFindHandler: the concrete Handler that SSession returns: its type, the
+// field holding the served Session and the field holding the msize taken from
+// session.Version().
+func dspFindHandler(c *Ctx, sessT *types.Named) (h *types.Named, sessField, msizeField *types.Var, err error) {
+	so, _ := c.Pkg.Scope().Lookup("SSession").(*types.Func)
+	sfd := dspDeclOf(c, so)
+	if sfd == nil {
+		return nil, nil, nil, fmt.Errorf("SSession not found")
+	}
+	ps := dspParamObjs(c, sfd.Type)
+	if len(ps) != 1 || ps[0] == nil || !types.Identical(ps[0].Type(), sessT) {
+		return nil, nil, nil, fmt.Errorf("SSession does not take one Session")
+	}
+	var versionVar types.Object // x in `x, _ := session.Version()`
+	var lit *ast.CompositeLit
+	for _, st := range sfd.Body.List {
+		switch s := st.(type) {
+		case *ast.AssignStmt:
+			if s.Tok == token.DEFINE && len(s.Lhs) == 2 && len(s.Rhs) == 1 {
+				if cx, ok := dspParen(s.Rhs[0]).(*ast.CallExpr); ok {
+					if sel, ok := dspParen(cx.Fun).(*ast.SelectorExpr); ok && sel.Sel.Name == "Version" && dspIs(c, sel.X, ps[0]) {
+						if id, ok := s.Lhs[0].(*ast.Ident); ok {
+							versionVar = c.Info.Defs[id]
+						}
+						continue
+					}
+				}
+			}
+			return nil, nil, nil, fmt.Errorf("SSession: unrecognised assignment")
+		case *ast.ReturnStmt:
+			if len(s.Results) == 1 {
+				e := dspParen(s.Results[0])
+				if u, ok := e.(*ast.UnaryExpr); ok && u.Op == token.AND {
+					e = dspParen(u.X)
+				}
+				lit, _ = e.(*ast.CompositeLit)
+			}
+		default:
+			return nil, nil, nil, fmt.Errorf("SSession: unrecognised statement")
+		}
+	}
+	if lit == nil || versionVar == nil {
+		return nil, nil, nil, fmt.Errorf("SSession: expected `msize, _ := session.Version()` and `return handler{…}`")
+	}
+	tv := c.Info.Types[lit]
+	h = dspNamed(tv.Type)
+	if h == nil {
+		return nil, nil, nil, fmt.Errorf("SSession returns a literal of unnamed type")
+	}
+	st, ok := h.Underlying().(*types.Struct)
+	if !ok {
+		return nil, nil, nil, fmt.Errorf("SSession's handler is not a struct")
+	}
+	for k, el := range lit.Elts {
+		var fv *types.Var
+		val := el
+		if kv, ok := el.(*ast.KeyValueExpr); ok {
+			fv, _ = c.Info.Uses[kv.Key.(*ast.Ident)].(*types.Var)
+			val = kv.Value
+		} else if k < st.NumFields() {
+			fv = st.Field(k)
+		}
+		switch {
+		case dspIs(c, val, ps[0]):
+			sessField = fv
+		case dspIs(c, val, versionVar):
+			msizeField = fv
+		}
+	}
+	if sessField == nil || msizeField == nil {
+		return nil, nil, nil, fmt.Errorf("SSession: the handler literal does not store the session and the msize of session.Version()")
+	}
+	return h, sessField, msizeField, nil
+}
+
 func genDispatch(c *Ctx) (string, error) {
 	var b strings.Builder
 	b.WriteString(dspHeader)
 
-	// ---- Session interface
-	so := c.Pkg.Scope().Lookup("Session")
-	if so == nil {
-		return "", fmt.Errorf("type Session not found")
+	sessT, iface, err := dspIface(c, "Session")
+	if err != nil {
+		return "", err
 	}
-	iface, ok := so.Type().Underlying().(*types.Interface)
-	if !ok {
-		return "", fmt.Errorf("Session is not an interface")
+	msgT, _, err := dspIface(c, "Message")
+	if err != nil {
+		return "", err
 	}
 	b.WriteString("(* session.go: method, parameter kinds after ctx, variadic?, result kinds before error *)\n")
 	b.WriteString("Definition gen_session : list (string * list gkind * bool * list gkind) :=\n  [")
 	first := true
 	nsess := 0
+	callMethod := map[string]bool{}
 	for k := 0; k < iface.NumMethods(); k++ {
 		m := iface.Method(k)
 		if m.Name() == "Version" || m.Name() == "Stop" {
@@ -954,46 +1588,46 @@ func genDispatch(c *Ctx) (string, error) {
 		}
 		first = false
 		nsess++
+		callMethod[m.Name()] = true
 		fmt.Fprintf(&b, "(%q, %s, %v, %s)", m.Name(), dspKinds(ps), variadic, dspKinds(rs))
 	}
 	b.WriteString("].\n\n")
 
-	// ---- client methods, in source order of csession.go
+	// ---- client: the Session implementation whose call methods make a round trip
+	// `send(ctx, Message) (Message, error)`; in source order
 	usedErrs := map[string]bool{}
 	var clients []*dspClient
+	var clientT *types.Named
 	for _, f := range c.Files {
 		for _, d := range f.Decls {
 			fd, ok := d.(*ast.FuncDecl)
-			if !ok || fd.Recv == nil || fd.Body == nil || len(fd.Recv.List) != 1 {
+			if !ok || fd.Recv == nil || fd.Body == nil || !callMethod[fd.Name.Name] {
 				continue
 			}
-			t := fd.Recv.List[0].Type
-			if s, ok := t.(*ast.StarExpr); ok {
-				t = s.X
+			fo, ok := c.Info.Defs[fd.Name].(*types.Func)
+			if !ok {
+				continue
 			}
-			if dspIdent(t) != "client" {
+			rt := fo.Type().(*types.Signature).Recv().Type()
+			if !types.Implements(rt, iface) && !types.Implements(types.NewPointer(rt), iface) {
 				continue
 			}
 			uses := false
 			ast.Inspect(fd.Body, func(n ast.Node) bool {
-				if s, ok := n.(*ast.SelectorExpr); ok && s.Sel.Name == "send" {
+				if cx, ok := n.(*ast.CallExpr); ok && dspSendCall(c, cx, msgT) {
 					uses = true
 				}
 				return true
 			})
-			isSess := false
-			for k := 0; k < iface.NumMethods(); k++ {
-				if iface.Method(k).Name() == fd.Name.Name {
-					isSess = true
-				}
-			}
 			if !uses {
-				if isSess && fd.Name.Name != "Version" && fd.Name.Name != "Stop" {
-					return "", fmt.Errorf("client.%s does not call c.transport.send", fd.Name.Name)
-				}
 				continue
 			}
-			m, err := dspClientMethod(c, fd, usedErrs)
+			if clientT == nil {
+				clientT = dspNamed(rt)
+			} else if dspNamed(rt) == nil || dspNamed(rt).Obj() != clientT.Obj() {
+				return "", fmt.Errorf("two Session implementations make round trips (%s and %s)", clientT.Obj().Name(), rt.String())
+			}
+			m, err := dspClientMethod(c, fd, msgT, usedErrs)
 			if err != nil {
 				return "", err
 			}
@@ -1001,7 +1635,7 @@ func genDispatch(c *Ctx) (string, error) {
 		}
 	}
 	if len(clients) != nsess {
-		return "", fmt.Errorf("found %d client methods using the transport, the Session interface has %d call methods", len(clients), nsess)
+		return "", fmt.Errorf("found %d client methods making a round trip, the Session interface has %d call methods", len(clients), nsess)
 	}
 	b.WriteString("(* csession.go *)\nDefinition gen_client : list cmethod :=\n  [")
 	for k, m := range clients {
@@ -1014,87 +1648,113 @@ func genDispatch(c *Ctx) (string, error) {
 	}
 	b.WriteString("].\n\n")
 
-	// ---- server cases
-	fd := c.FuncDecl("sessionHandler", "Handle")
+	// ---- server: the Handler SSession returns
+	hT, sessField, msizeField, err := dspFindHandler(c, sessT)
+	if err != nil {
+		return "", err
+	}
+	var fd *ast.FuncDecl
+	for _, m := range dspMethodsOf(c, hT) {
+		if m.Name.Name == "Handle" {
+			fd = m
+		}
+	}
 	if fd == nil {
-		return "", fmt.Errorf("sessionHandler.Handle not found")
+		return "", fmt.Errorf("%s has no Handle method", hT.Obj().Name())
 	}
-	// prelude: session := sess.s ; msize := sess.msize ; switch msg := msg.(type) {…}
-	if len(fd.Body.List) != 3 {
-		return "", fmt.Errorf("sessionHandler.Handle: expected `session := sess.s; msize := sess.msize; switch msg := msg.(type) {…}` (found %d statements)", len(fd.Body.List))
+	recv := dspRecvObj(c, fd)
+	hps := dspParamObjs(c, fd.Type)
+	if recv == nil || len(hps) != 2 || hps[0] == nil || hps[1] == nil {
+		return "", fmt.Errorf("Handle: expected a named receiver and two named parameters")
 	}
-	for k, want := range [][2]string{{"session", "s"}, {"msize", "msize"}} {
-		as, ok := fd.Body.List[k].(*ast.AssignStmt)
-		if !ok || as.Tok != token.DEFINE || len(as.Lhs) != 1 || len(as.Rhs) != 1 || dspIdent(as.Lhs[0]) != want[0] {
-			return "", fmt.Errorf("sessionHandler.Handle: statement %d is not `%s := sess.%s`", k, want[0], want[1])
-		}
-		if f, ok := dspSel(as.Rhs[0], "sess"); !ok || f != want[1] {
-			return "", fmt.Errorf("sessionHandler.Handle: statement %d is not `%s := sess.%s`", k, want[0], want[1])
-		}
-	}
-	// SSession: msize comes from session.Version()
-	if sfd := c.FuncDecl("", "SSession"); sfd == nil || len(sfd.Body.List) != 2 {
-		return "", fmt.Errorf("SSession: expected `msize, _ := session.Version(); return sessionHandler{session, msize}`")
-	} else {
-		as, ok := sfd.Body.List[0].(*ast.AssignStmt)
-		okShape := ok && as.Tok == token.DEFINE && len(as.Lhs) == 2 && dspIdent(as.Lhs[0]) == "msize" && len(as.Rhs) == 1
-		if okShape {
-			call, ok := as.Rhs[0].(*ast.CallExpr)
-			f, oks := "", false
-			if ok {
-				f, oks = dspSel(call.Fun, "session")
+	// prelude: any number of `x := recv.field` aliases, in any order, then the type switch on the message
+	alias := map[types.Object]*types.Var{}
+	var ts *ast.TypeSwitchStmt
+	for k, st := range fd.Body.List {
+		if t, ok := st.(*ast.TypeSwitchStmt); ok {
+			if k != len(fd.Body.List)-1 {
+				return "", fmt.Errorf("Handle: statements follow the type switch")
 			}
-			okShape = ok && oks && f == "Version"
+			ts = t
+			break
 		}
-		ret, okr := sfd.Body.List[1].(*ast.ReturnStmt)
-		if okr && len(ret.Results) == 1 {
-			cl, ok := ret.Results[0].(*ast.CompositeLit)
-			okr = ok && dspIdent(cl.Type) == "sessionHandler" && len(cl.Elts) == 2 && dspIdent(cl.Elts[0]) == "session" && dspIdent(cl.Elts[1]) == "msize"
-		} else {
-			okr = false
+		as, ok := st.(*ast.AssignStmt)
+		if !ok || as.Tok != token.DEFINE || len(as.Lhs) != 1 || len(as.Rhs) != 1 {
+			return "", fmt.Errorf("Handle: statement %d is neither `x := receiver.field` nor the type switch", k)
 		}
-		if !okShape || !okr {
-			return "", fmt.Errorf("SSession: expected `msize, _ := session.Version(); return sessionHandler{session, msize}`")
+		sel, ok := dspParen(as.Rhs[0]).(*ast.SelectorExpr)
+		if !ok || !dspIs(c, sel.X, recv) {
+			return "", fmt.Errorf("Handle: statement %d is not `x := receiver.field`", k)
 		}
+		fv, _ := c.Info.Uses[sel.Sel].(*types.Var)
+		alias[c.Info.Defs[as.Lhs[0].(*ast.Ident)]] = fv
 	}
-	ts, ok := fd.Body.List[2].(*ast.TypeSwitchStmt)
-	if !ok {
-		return "", fmt.Errorf("sessionHandler.Handle: third statement is not a type switch")
+	if ts == nil {
+		return "", fmt.Errorf("Handle: no type switch")
+	}
+	denotes := func(field *types.Var) func(ast.Expr) bool {
+		return func(e ast.Expr) bool {
+			e = dspParen(e)
+			if id, ok := e.(*ast.Ident); ok {
+				return alias[dspObj(c, id)] == field && field != nil
+			}
+			if sel, ok := e.(*ast.SelectorExpr); ok {
+				return dspIs(c, sel.X, recv) && c.Info.Uses[sel.Sel] == types.Object(field)
+			}
+			return false
+		}
 	}
 	tas, ok := ts.Assign.(*ast.AssignStmt)
 	if !ok || len(tas.Lhs) != 1 || len(tas.Rhs) != 1 {
-		return "", fmt.Errorf("sessionHandler.Handle: type switch is not `switch msg := msg.(type)`")
+		return "", fmt.Errorf("Handle: type switch does not bind the message (`switch m := msg.(type)`)")
 	}
-	msgVar := dspIdent(tas.Lhs[0])
-	if tae, ok := tas.Rhs[0].(*ast.TypeAssertExpr); !ok || tae.Type != nil || dspIdent(tae.X) != fd.Type.Params.List[1].Names[0].Name {
-		return "", fmt.Errorf("sessionHandler.Handle: type switch is not on the message parameter")
+	if tae, ok := tas.Rhs[0].(*ast.TypeAssertExpr); !ok || tae.Type != nil || !dspIs(c, tae.X, hps[1]) {
+		return "", fmt.Errorf("Handle: type switch is not on the message parameter")
+	}
+	symPos := tas.Lhs[0].Pos()
+	env := &dspHandlerEnv{
+		isSession: denotes(sessField),
+		isMsize:   denotes(msizeField),
+		isMsg: func(o types.Object) bool {
+			v, ok := o.(*types.Var)
+			return ok && v.Pos() == symPos
+		},
+		ctxObj: hps[0],
+		iface:  iface,
 	}
 	var servers []*dspServer
 	defaultErr := ""
 	for _, st := range ts.Body.List {
 		cc := st.(*ast.CaseClause)
 		if cc.List == nil {
-			ret, ok := dspSingleReturn(&ast.BlockStmt{List: cc.Body})
-			if !ok || len(ret.Results) != 2 || dspIdent(ret.Results[0]) != "nil" || !strings.HasPrefix(dspIdent(ret.Results[1]), "Err") {
-				return "", fmt.Errorf("sessionHandler.Handle: default arm is not `return nil, Err…`")
+			if len(cc.Body) != 1 {
+				return "", fmt.Errorf("Handle: default arm is not `return nil, Err…`")
 			}
-			defaultErr = dspIdent(ret.Results[1])
-			usedErrs[defaultErr] = true
+			ret, ok := cc.Body[0].(*ast.ReturnStmt)
+			if !ok || len(ret.Results) != 2 || !dspIsNil(c, ret.Results[0]) {
+				return "", fmt.Errorf("Handle: default arm is not `return nil, Err…`")
+			}
+			en, ok := dspPkgErr(c, ret.Results[1])
+			if !ok {
+				return "", fmt.Errorf("Handle: default arm does not return a package-level error variable")
+			}
+			defaultErr = en
+			usedErrs[en] = true
 			continue
 		}
-		if len(cc.List) != 1 || dspIdent(cc.List[0]) == "" {
-			return "", fmt.Errorf("sessionHandler.Handle: a case arm lists more than one type (%s)", c.Fset.Position(cc.Pos()))
+		if len(cc.List) != 1 {
+			return "", fmt.Errorf("Handle: a case arm lists more than one type (%s)", c.Fset.Position(cc.Pos()))
 		}
-		s, err := dspServerCase(c, cc, iface, msgVar)
+		s, err := dspServerCase(c, cc, env)
 		if err != nil {
 			return "", err
 		}
 		servers = append(servers, s)
 	}
 	if defaultErr == "" {
-		return "", fmt.Errorf("sessionHandler.Handle: no default arm")
+		return "", fmt.Errorf("Handle: no default arm")
 	}
-	b.WriteString("(* ssesssion.go, sessionHandler.Handle *)\nDefinition gen_server : list scase :=\n  [")
+	b.WriteString("(* ssesssion.go, the Handle method of the Handler that SSession returns *)\nDefinition gen_server : list scase :=\n  [")
 	for k, s := range servers {
 		if k > 0 {
 			b.WriteString(";\n   ")
@@ -1113,7 +1773,7 @@ func genDispatch(c *Ctx) (string, error) {
 	}
 	sortStrings(en)
 	for k, n := range en {
-		txt, err := dspErrName(c, n)
+		txt, err := dspErrEname(c, n)
 		if err != nil {
 			return "", err
 		}
@@ -1124,20 +1784,14 @@ func genDispatch(c *Ctx) (string, error) {
 	}
 	b.WriteString("].\n\n")
 
-	// ---- transport.handle: who performs the client's WriteFcall
-	olw, err := dspOwnerLoopWrites(c)
+	// ---- the goroutines that carry a call (Model/Flow.v)
+	ff, err := dspFlowFacts(c, clientT, msgT)
 	if err != nil {
 		return "", err
 	}
-	b.WriteString("(* transport.go, handle: does the owner loop perform ch.WriteFcall itself inside its\n   `case req := <-t.requests` arm (true), or does a goroutine started by handle do it (false)? *)\n")
-	fmt.Fprintf(&b, "Definition gen_owner_loop_writes : bool := %v.\n\n", olw)
-
-	// ---- the hand-offs between the goroutines that carry a call (Model/Flow.v)
-	ff, err := dspFlowFacts(c)
-	if err != nil {
-		return "", err
-	}
-	b.WriteString("(* transport.go / serveconn.go: which goroutine blocks on which hand-off (the structure Model/Flow.v abstracts).\n   Each entry: (fact, holds?).  Channel capacities: (channel, capacity). *)\n")
+	b.WriteString("(* transport.go: does the client's owner loop perform WriteFcall itself inside the arm that takes a\n   caller's request (true), or does a goroutine started next to it do it (false)? *)\n")
+	fmt.Fprintf(&b, "Definition gen_owner_loop_writes : bool := %v.\n\n", ff.ownerWrites)
+	b.WriteString("(* transport.go / serveconn.go: which goroutine blocks on which hand-off (the structure Model/Flow.v abstracts).\n   Each entry: (fact, holds?).  Channel capacities by ROLE: (role, capacity). *)\n")
 	b.WriteString("Definition gen_flow_facts : list (string * bool) :=\n  [")
 	for k, f := range ff.facts {
 		if k > 0 {
@@ -1155,435 +1809,6 @@ func genDispatch(c *Ctx) (string, error) {
 	}
 	b.WriteString("].\n")
 	return b.String(), nil
-}
-
-type dspFact struct {
-	name  string
-	holds bool
-}
-type dspCap struct {
-	name string
-	cap  uint64
-}
-type dspFlow struct {
-	facts []dspFact
-	caps  []dspCap
-}
-
-// dspSelectSends: does the node contain a select statement with a case `ch <- …` (ch an identifier or x.ch)?
-func dspSelectSends(n ast.Node, ch string) bool {
-	found := false
-	ast.Inspect(n, func(x ast.Node) bool {
-		cc, ok := x.(*ast.CommClause)
-		if !ok || cc.Comm == nil {
-			return true
-		}
-		if snd, ok := cc.Comm.(*ast.SendStmt); ok {
-			if dspIdent(snd.Chan) == ch {
-				found = true
-			}
-			if s, ok := snd.Chan.(*ast.SelectorExpr); ok && s.Sel.Name == ch {
-				found = true
-			}
-		}
-		return true
-	})
-	return found
-}
-
-// dspRecvArm finds, in the outermost select of loop, the arm `x := <-ch` / `<-ch`.
-func dspRecvArm(sel *ast.SelectStmt, ch string) *ast.CommClause {
-	for _, cl := range sel.Body.List {
-		cc := cl.(*ast.CommClause)
-		var e ast.Expr
-		switch x := cc.Comm.(type) {
-		case *ast.AssignStmt:
-			if len(x.Rhs) == 1 {
-				e = x.Rhs[0]
-			}
-		case *ast.ExprStmt:
-			e = x.X
-		}
-		u, ok := e.(*ast.UnaryExpr)
-		if !ok || u.Op != token.ARROW {
-			continue
-		}
-		if dspIdent(u.X) == ch {
-			return cc
-		}
-		if s, ok := u.X.(*ast.SelectorExpr); ok && s.Sel.Name == ch {
-			return cc
-		}
-	}
-	return nil
-}
-
-// dspLoopSelect: the function body's (last) `for { … select {…} … }`: returns the loop and its single top-level select.
-func dspLoopSelect(body *ast.BlockStmt, who string) (*ast.ForStmt, *ast.SelectStmt, error) {
-	var loop *ast.ForStmt
-	for _, st := range body.List {
-		if l, ok := st.(*ast.ForStmt); ok {
-			loop = l
-		}
-		if ls, ok := st.(*ast.LabeledStmt); ok {
-			if l, ok := ls.Stmt.(*ast.ForStmt); ok {
-				loop = l
-			}
-		}
-	}
-	if loop == nil || loop.Cond != nil {
-		return nil, nil, fmt.Errorf("%s: no unconditional for loop", who)
-	}
-	var sel *ast.SelectStmt
-	for _, st := range loop.Body.List {
-		if s, ok := st.(*ast.SelectStmt); ok {
-			if sel != nil {
-				return nil, nil, fmt.Errorf("%s: more than one select at the top of the loop", who)
-			}
-			sel = s
-		}
-	}
-	if sel == nil {
-		return nil, nil, fmt.Errorf("%s: loop has no top-level select", who)
-	}
-	return loop, sel, nil
-}
-
-// dspMakeChanCaps: every `x := make(chan T[, n])` / `x = make(…)` / field `x: make(…)` inside n.
-func dspMakeChanCaps(c *Ctx, n ast.Node, prefix string, out *[]dspCap) error {
-	var err error
-	rec := func(name string, call *ast.CallExpr) {
-		if dspIdent(call.Fun) != "make" || len(call.Args) == 0 {
-			return
-		}
-		if _, ok := call.Args[0].(*ast.ChanType); !ok {
-			return
-		}
-		capv := uint64(0)
-		if len(call.Args) == 2 {
-			tv, ok := c.Info.Types[call.Args[1]]
-			if !ok || tv.Value == nil {
-				err = fmt.Errorf("%s%s: channel capacity is not a constant", prefix, name)
-				return
-			}
-			capv, _ = constant.Uint64Val(tv.Value)
-		}
-		*out = append(*out, dspCap{prefix + name, capv})
-	}
-	ast.Inspect(n, func(x ast.Node) bool {
-		switch y := x.(type) {
-		case *ast.AssignStmt:
-			for k, r := range y.Rhs {
-				if call, ok := r.(*ast.CallExpr); ok && k < len(y.Lhs) && dspIdent(y.Lhs[k]) != "" {
-					rec(dspIdent(y.Lhs[k]), call)
-				}
-			}
-		case *ast.ValueSpec:
-			for k, r := range y.Values {
-				if call, ok := r.(*ast.CallExpr); ok && k < len(y.Names) {
-					rec(y.Names[k].Name, call)
-				}
-			}
-		case *ast.KeyValueExpr:
-			if call, ok := y.Value.(*ast.CallExpr); ok && dspIdent(y.Key) != "" {
-				rec(dspIdent(y.Key), call)
-			}
-		}
-		return true
-	})
-	return err
-}
-
-// dspFlowFacts reads the blocking structure Model/Flow.v abstracts:
-//
-//	client reader  : loop { ReadFcall; select { responses <- fcall … } }
-//	owner loop     : select arms t.requests / responses (+ writer hand-off); responses arm ends in a send on the
-//	                 request's own reply channel, which has capacity >= 1 (never blocks)
-//	server reader  : conn.read  : loop { ReadFcall; select { requests <- req … } }
-//	server writer  : conn.write : loop { select { resp := <-responses: WriteFcall … } }
-//	serve loop     : conn.serve : starts read and write as goroutines; loop select with arms <-requests and
-//	                 <-completed; the completed arm hands over with a blocking select { responses <- resp … };
-//	                 the requests arm runs the handler in a goroutine that ends in select { completed <- resp … }
-func dspFlowFacts(c *Ctx) (*dspFlow, error) {
-	ff := &dspFlow{}
-	add := func(name string, holds bool) { ff.facts = append(ff.facts, dspFact{name, holds}) }
-
-	// --- client
-	hd := c.FuncDecl("transport", "handle")
-	if hd == nil {
-		return nil, fmt.Errorf("transport.handle not found")
-	}
-	var reader *ast.FuncLit
-	for _, st := range hd.Body.List {
-		if g, ok := st.(*ast.GoStmt); ok {
-			if fl, ok := g.Call.Fun.(*ast.FuncLit); ok && dspContainsCall(fl.Body, "ReadFcall") {
-				if reader != nil {
-					return nil, fmt.Errorf("transport.handle: two goroutines call ReadFcall")
-				}
-				reader = fl
-			}
-		}
-	}
-	if reader == nil {
-		return nil, fmt.Errorf("transport.handle: no reader goroutine (go func(){… ReadFcall …}())")
-	}
-	add("client reader: after ReadFcall, hands the reply over with a select-send on responses", dspSelectSends(reader.Body, "responses"))
-	_, osel, err := dspLoopSelect(hd.Body, "transport.handle")
-	if err != nil {
-		return nil, err
-	}
-	ra := dspRecvArm(osel, "responses")
-	add("owner loop: takes replies in its select (case b := <-responses)", ra != nil)
-	add("owner loop: takes requests in its select (case req := <-t.requests)", dspRecvArm(osel, "requests") != nil)
-	delivers := false
-	if ra != nil {
-		for _, st := range ra.Body {
-			if snd, ok := st.(*ast.SendStmt); ok {
-				if f, ok := dspSel(snd.Chan, "req"); ok && f == "response" {
-					delivers = true
-				}
-			}
-		}
-	}
-	add("owner loop: wakes the caller with a plain send on req.response", delivers)
-	if fd := c.FuncDecl("", "newFcallRequest"); fd != nil {
-		if err := dspMakeChanCaps(c, fd.Body, "fcallRequest.", &ff.caps); err != nil {
-			return nil, err
-		}
-	} else {
-		return nil, fmt.Errorf("newFcallRequest not found")
-	}
-	if fd := c.FuncDecl("", "newTransport"); fd != nil {
-		if err := dspMakeChanCaps(c, fd.Body, "transport.", &ff.caps); err != nil {
-			return nil, err
-		}
-	}
-	// channels local to handle (declared in its var block / body, outside the goroutines' literals is fine too)
-	if err := dspMakeChanCaps(c, hd.Body, "handle.", &ff.caps); err != nil {
-		return nil, err
-	}
-
-	// --- server
-	sd := c.FuncDecl("conn", "serve")
-	rd := c.FuncDecl("conn", "read")
-	wd := c.FuncDecl("conn", "write")
-	if sd == nil || rd == nil || wd == nil {
-		return nil, fmt.Errorf("conn.serve / conn.read / conn.write not found")
-	}
-	goRead, goWrite := false, false
-	for _, st := range sd.Body.List {
-		if g, ok := st.(*ast.GoStmt); ok {
-			if m, ok := dspSel(g.Call.Fun, "c"); ok {
-				if m == "read" && len(g.Call.Args) == 1 && dspIdent(g.Call.Args[0]) == "requests" {
-					goRead = true
-				}
-				if m == "write" && len(g.Call.Args) == 1 && dspIdent(g.Call.Args[0]) == "responses" {
-					goWrite = true
-				}
-			}
-		}
-	}
-	add("serve: starts `go c.read(requests)` and `go c.write(responses)`", goRead && goWrite)
-	add("server reader: calls ReadFcall and hands the request over with a select-send on requests",
-		dspContainsCall(rd.Body, "ReadFcall") && dspSelectSends(rd.Body, "requests"))
-	_, wsel, err := dspLoopSelect(wd.Body, "conn.write")
-	if err != nil {
-		return nil, err
-	}
-	wa := dspRecvArm(wsel, "responses")
-	wr := false
-	if wa != nil {
-		for _, st := range wa.Body {
-			if dspContainsCall(st, "WriteFcall") {
-				wr = true
-			}
-		}
-	}
-	add("server writer: takes a reply from responses in its select and performs WriteFcall in that arm", wr)
-	_, ssel, err := dspLoopSelect(sd.Body, "conn.serve")
-	if err != nil {
-		return nil, err
-	}
-	qa := dspRecvArm(ssel, "requests")
-	ca := dspRecvArm(ssel, "completed")
-	add("serve loop: select with arms <-requests and <-completed", qa != nil && ca != nil)
-	fwd, inl := false, false
-	if ca != nil {
-		for _, st := range ca.Body {
-			if s, ok := st.(*ast.SelectStmt); ok && dspSelectSends(s, "responses") {
-				fwd = true
-			}
-			if dspContainsCall(st, "WriteFcall") {
-				inl = true
-			}
-		}
-	}
-	add("serve loop: the completed arm forwards the reply with a blocking select-send on responses", fwd && !inl)
-	hgo, hinline := false, false
-	if qa != nil {
-		ast.Inspect(&ast.BlockStmt{List: qa.Body}, func(x ast.Node) bool {
-			switch y := x.(type) {
-			case *ast.GoStmt:
-				if fl, ok := y.Call.Fun.(*ast.FuncLit); ok && dspContainsCall(fl.Body, "Handle") && dspSelectSends(fl.Body, "completed") {
-					hgo = true
-				}
-				return false
-			case *ast.CallExpr:
-				if s, ok := y.Fun.(*ast.SelectorExpr); ok && s.Sel.Name == "Handle" {
-					hinline = true
-				}
-			}
-			return true
-		})
-	}
-	add("serve loop: the handler runs in its own goroutine, which ends in a select-send on completed", hgo && !hinline)
-	// every request gets its handler at once: in the block that holds the `go func(){… Handle …}()`
-	// statement nothing before it can block (no select, send, receive, Wait or Lock)
-	unblocked := false
-	if qa != nil {
-		ast.Inspect(&ast.BlockStmt{List: qa.Body}, func(x ast.Node) bool {
-			var list []ast.Stmt
-			switch y := x.(type) {
-			case *ast.BlockStmt:
-				list = y.List
-			case *ast.CaseClause:
-				list = y.Body
-			case *ast.CommClause:
-				list = y.Body
-			default:
-				return true
-			}
-			for k, st := range list {
-				g, ok := st.(*ast.GoStmt)
-				if !ok {
-					continue
-				}
-				fl, ok := g.Call.Fun.(*ast.FuncLit)
-				if !ok || !dspContainsCall(fl.Body, "Handle") {
-					continue
-				}
-				blocks := false
-				for _, before := range list[:k] {
-					ast.Inspect(before, func(z ast.Node) bool {
-						switch w := z.(type) {
-						case *ast.FuncLit:
-							return false
-						case *ast.SelectStmt, *ast.SendStmt:
-							blocks = true
-						case *ast.UnaryExpr:
-							if w.Op == token.ARROW {
-								blocks = true
-							}
-						case *ast.CallExpr:
-							if s, ok := w.Fun.(*ast.SelectorExpr); ok && (s.Sel.Name == "Wait" || s.Sel.Name == "Lock" || s.Sel.Name == "Acquire") {
-								blocks = true
-							}
-						}
-						return true
-					})
-				}
-				unblocked = !blocks
-			}
-			return true
-		})
-	}
-	add("serve loop: nothing can block between taking a request and starting its handler goroutine", unblocked)
-	if err := dspMakeChanCaps(c, sd.Body, "serve.", &ff.caps); err != nil {
-		return nil, err
-	}
-	return ff, nil
-}
-
-func dspContainsCall(n ast.Node, sel string) bool {
-	found := false
-	ast.Inspect(n, func(x ast.Node) bool {
-		if call, ok := x.(*ast.CallExpr); ok {
-			if s, ok := call.Fun.(*ast.SelectorExpr); ok && s.Sel.Name == sel {
-				found = true
-			}
-		}
-		return true
-	})
-	return found
-}
-
-// dspOwnerLoopWrites inspects transport.handle: its last statement must be the
-// owner loop `for { select { case req := <-t.requests: … } }`.  It reports
-// whether the t.requests arm itself calls WriteFcall.  If it does not, some
-// goroutine started inside handle (a `go func(){…}()` or `go t.m(…)`) must,
-// and nothing else in the owner loop may; any other arrangement is unknown.
-func dspOwnerLoopWrites(c *Ctx) (bool, error) {
-	fd := c.FuncDecl("transport", "handle")
-	if fd == nil || len(fd.Body.List) == 0 {
-		return false, fmt.Errorf("transport.handle not found")
-	}
-	loop, ok := fd.Body.List[len(fd.Body.List)-1].(*ast.ForStmt)
-	if !ok || loop.Cond != nil || loop.Init != nil || loop.Post != nil {
-		return false, fmt.Errorf("transport.handle: last statement is not the owner loop `for { select {…} }`")
-	}
-	var sel *ast.SelectStmt
-	for _, st := range loop.Body.List {
-		if s, ok := st.(*ast.SelectStmt); ok {
-			if sel != nil {
-				return false, fmt.Errorf("transport.handle: owner loop has more than one select")
-			}
-			sel = s
-		} else if dspContainsCall(st, "WriteFcall") {
-			return false, fmt.Errorf("transport.handle: owner loop calls WriteFcall outside its select (shape not modelled)")
-		}
-	}
-	if sel == nil {
-		return false, fmt.Errorf("transport.handle: owner loop has no select")
-	}
-	var reqArm *ast.CommClause
-	for _, cl := range sel.Body.List {
-		cc := cl.(*ast.CommClause)
-		isReq := false
-		if as, ok := cc.Comm.(*ast.AssignStmt); ok && len(as.Rhs) == 1 {
-			if u, ok := as.Rhs[0].(*ast.UnaryExpr); ok && u.Op == token.ARROW {
-				if f, ok := dspSel(u.X, "t"); ok && f == "requests" {
-					isReq = true
-				}
-			}
-		}
-		if isReq {
-			reqArm = cc
-			continue
-		}
-		for _, st := range cc.Body {
-			if dspContainsCall(st, "WriteFcall") {
-				return false, fmt.Errorf("transport.handle: an arm other than `case req := <-t.requests` calls WriteFcall (shape not modelled)")
-			}
-		}
-	}
-	if reqArm == nil {
-		return false, fmt.Errorf("transport.handle: no `case req := <-t.requests` arm")
-	}
-	for _, st := range reqArm.Body {
-		if dspContainsCall(st, "WriteFcall") {
-			return true, nil
-		}
-	}
-	// somebody else must write: a goroutine started by handle
-	writer := false
-	for _, st := range fd.Body.List[:len(fd.Body.List)-1] {
-		g, ok := st.(*ast.GoStmt)
-		if !ok {
-			continue
-		}
-		if fl, ok := g.Call.Fun.(*ast.FuncLit); ok && dspContainsCall(fl.Body, "WriteFcall") {
-			writer = true
-		}
-		if m, ok := dspSel(g.Call.Fun, "t"); ok {
-			if md := c.FuncDecl("transport", m); md != nil && dspContainsCall(md.Body, "WriteFcall") {
-				writer = true
-			}
-		}
-	}
-	if !writer {
-		return false, fmt.Errorf("transport.handle: neither the owner loop nor a goroutine it starts calls WriteFcall")
-	}
-	return false, nil
 }
 
 func sortStrings(a []string) {
